@@ -114,6 +114,7 @@ def locNames : List String := [
   "pflag.Flag.NoOptDefVal",
   "plotgroup.plots[]",
   "reader.diffs[]",
+  "reader.includePath",
   "reader.readers",
   "reader.readers[]",
   "role.actionCmds[]",
@@ -195,9 +196,9 @@ def lockNames : List String := ["workerRegistry.Mutex"]
 /-- parents, multi, once, joined, joinBeforeDone, leaks -/
 def roots : List Root := [
   ⟨[], false, false, false, [], []⟩,  -- 0 main (main ) func Run()
-  ⟨[0], false, true, true, [], ["app.runConduct: return errors.Errorf(\"time limit reached, initiating hard shutdown\")"]⟩,  -- 1 app.runConduct#1 (worker run.go:259) runWorker(playCtx, ap.stopper, func(ctx context.Context) {
-  ⟨[0], false, true, false, [], []⟩,  -- 2 app.runConduct#3 (go run.go:343) go func() {
-  ⟨[0], false, false, false, [], []⟩,  -- 3 app.runConduct#2 (go run.go:281) go func() {
+  ⟨[0], false, true, true, [], ["app.runConduct: return errors.Errorf(\"time limit reached, initiating hard shutdown\")"]⟩,  -- 1 app.runConduct#1 (worker run.go:263) runWorker(playCtx, ap.stopper, func(ctx context.Context) {
+  ⟨[0], false, true, false, [], []⟩,  -- 2 app.runConduct#3 (go run.go:347) go func() {
+  ⟨[0], false, false, false, [], []⟩,  -- 3 app.runConduct#2 (go run.go:285) go func() {
   ⟨[0], false, true, false, [], []⟩,  -- 4 app.prepareTerm#1 (go app.go:91) go ap.handleResize(stdout)
   ⟨[1], false, true, true, [1], []⟩,  -- 5 prompter.startPrompter#1 (worker conductor.go:259) runWorker(promptCtx, pr.stopper, func(ctx context.Context) {
   ⟨[1], false, true, true, [1], []⟩,  -- 6 spotMgr.startSpotlights#1 (worker conductor.go:321) runWorker(spotCtx, spm.stopper, func(ctx context.Context) {
@@ -345,308 +346,308 @@ def «parser.curLine» : Nat := 103
 def «pflag.Flag.NoOptDefVal» : Nat := 104
 def «plotgroup.plots[]» : Nat := 105
 def «reader.diffs[]» : Nat := 106
-def «reader.readers» : Nat := 107
-def «reader.readers[]» : Nat := 108
-def «role.actionCmds[]» : Nat := 109
-def «role.actionNames» : Nat := 110
-def «role.actionNames[]» : Nat := 111
-def «role.cleanupCmd» : Nat := 112
-def «role.sigNames» : Nat := 113
-def «role.sigNames[]» : Nat := 114
-def «role.sigParsers» : Nat := 115
-def «role.sigParsers[]» : Nat := 116
-def «role.spotlightCmd» : Nat := 117
-def «scene.concurrentLines» : Nat := 118
-def «scene.concurrentLines[]» : Nat := 119
-def «scene.waitUntil» : Nat := 120
-def «scriptLine.steps» : Nat := 121
-def «scriptLine.steps[]» : Nat := 122
-def «sigEvent.values» : Nat := 123
-def «sigEvent.values[]» : Nat := 124
-def «sink.lastVal» : Nat := 125
-def «subreader.lineno» : Nat := 126
-def «subreader.lines» : Nat := 127
-def «subreader.lines[]» : Nat := 128
-def «subreader.parent» : Nat := 129
-def «timeutil.Timer.Read» : Nat := 130
-def «var actionDefRe» : Nat := 131
-def «var activeRe» : Nat := 132
-def «var actorDefRe» : Nat := 133
-def «var actorsRe» : Nat := 134
-def «var adjList» : Nat := 135
-def «var advList» : Nat := 136
-def «var audienceRe» : Nat := 137
-def «var automata» : Nat := 138
-def «var cleanupDefRe» : Nat := 139
-def «var collectFns» : Nat := 140
-def «var collectsRe» : Nat := 141
-def «var computesRe» : Nat := 142
-def «var editRe» : Nat := 143
-def «var entailsRe» : Nat := 144
-def «var errAuditViolation» : Nat := 145
-def «var errInterrupted» : Nat := 146
-def «var evalFunctions» : Nat := 147
-def «var evalFunctions[]» : Nat := 148
-def «var expectsRe» : Nat := 149
-def «var expectsSameRe» : Nat := 150
-def «var foulRe» : Nat := 151
-def «var identRe» : Nat := 152
-def «var ignoreRe» : Nat := 153
-def «var init$guard» : Nat := 154
-def «var interpretationRe» : Nat := 155
-def «var measuresRe» : Nat := 156
-def «var moodChangeRe» : Nat := 157
-def «var narratorCtx» : Nat := 158
-def «var noPlotRe» : Nat := 159
-def «var nounsList» : Nat := 160
-def «var paramRe» : Nat := 161
-def «var parseDefRe» : Nat := 162
-def «var preprocRe» : Nat := 163
-def «var registry» : Nat := 164
-def «var repeatAlwaysRe» : Nat := 165
-def «var repeatCountRe» : Nat := 166
-def «var repeatRe» : Nat := 167
-def «var repeatTimeoutRe» : Nat := 168
-def «var roleRe» : Nat := 169
-def «var scriptRe» : Nat := 170
-def «var spotlightDefRe» : Nat := 171
-def «var storyLineRe» : Nat := 172
-def «var tempoRe» : Nat := 173
-def «var watchRe» : Nat := 174
-def «var watchVarRe» : Nat := 175
-def «variable.watcherNames» : Nat := 176
-def «variable.watcherNames[]» : Nat := 177
-def «variable.watchers[]» : Nat := 178
-def «workerRegistry.mu.numWorkers» : Nat := 179
-def «workerRegistry.mu.workers[]» : Nat := 180
-def «Artifact.ContentType» : Nat := 181
-def «Artifact.FileName» : Nat := 182
-def «Artifact.Icon» : Nat := 183
-def «Artifact.IsDir» : Nat := 184
-def «Artifact.Path» : Nat := 185
-def «RepeatSection.StartTime» : Nat := 186
-def «Result.Authors» : Nat := 187
-def «Result.Config» : Nat := 188
-def «Result.ConfigHTML» : Nat := 189
-def «Result.ConfigHash» : Nat := 190
-def «Result.ConfigHashHTML» : Nat := 191
-def «Result.Diffs» : Nat := 192
-def «Result.Error» : Nat := 193
-def «Result.Foul» : Nat := 194
-def «Result.MaxTime» : Nat := 195
-def «Result.MinTime» : Nat := 196
-def «Result.PlayDuration» : Nat := 197
-def «Result.PlayDurationVerbose» : Nat := 198
-def «Result.Repeat» : Nat := 199
-def «Result.SeeAlso» : Nat := 200
-def «Result.Steps» : Nat := 201
-def «Result.StepsHTML» : Nat := 202
-def «Result.Timestamp» : Nat := 203
-def «Result.TimestampHTML» : Nat := 204
-def «Result.Title» : Nat := 205
-def «Result.Version» : Nat := 206
-def «[]*logtags.Buffer[]» : Nat := 207
-def «[]func()[]» : Nat := 208
-def «[]reflect.Value[]» : Nat := 209
-def «[]string[]» : Nat := 210
-def «actChange.actNum» : Nat := 211
-def «actChange.ts» : Nat := 212
-def «actionGroup.actions» : Nat := 213
-def «actionGroup.actions[]» : Nat := 214
-def «actionGroup.actor» : Nat := 215
-def «actionReport.action» : Nat := 216
-def «actionReport.actor» : Nat := 217
-def «actionReport.duration» : Nat := 218
-def «actionReport.extOutput» : Nat := 219
-def «actionReport.output» : Nat := 220
-def «actionReport.result» : Nat := 221
-def «actionReport.startTime» : Nat := 222
-def «actor.actionScripts» : Nat := 223
-def «actor.extraEnv» : Nat := 224
-def «actor.name» : Nat := 225
-def «actor.role» : Nat := 226
-def «actor.shellPath» : Nat := 227
-def «actor.sinkNames» : Nat := 228
-def «actor.sinkNames[]» : Nat := 229
-def «actor.sinks» : Nat := 230
-def «actor.sinks[]» : Nat := 231
-def «app.cfg» : Nat := 232
-def «app.endCh» : Nat := 233
-def «app.log» : Nat := 234
-def «assignment.N» : Nat := 235
-def «assignment.assignMode» : Nat := 236
-def «assignment.targetVar» : Nat := 237
-def «audClause.defines» : Nat := 238
-def «audClause.text» : Nat := 239
-def «audClause.uses» : Nat := 240
-def «audClause.uses[]» : Nat := 241
-def «audienceMember.name» : Nat := 242
-def «auditError.auditor» : Nat := 243
-def «auditError.error» : Nat := 244
-def «auditError.ts» : Nat := 245
-def «auditableValue.typ» : Nat := 246
-def «auditableValue.val» : Nat := 247
-def «audition.cfg» : Nat := 248
-def «audition.collCh» : Nat := 249
-def «audition.errCh» : Nat := 250
-def «audition.eventCh» : Nat := 251
-def «audition.logger» : Nat := 252
-def «audition.r» : Nat := 253
-def «audition.res» : Nat := 254
-def «audition.stopper» : Nat := 255
-def «auditionReport.auditor» : Nat := 256
-def «auditionReport.ts» : Nat := 257
-def «auditionState.auditorStates» : Nat := 258
-def «auditionState.curActivated» : Nat := 259
-def «auditionState.curVals» : Nat := 260
-def «auditor.assignments» : Nat := 261
-def «auditor.expectFsm» : Nat := 262
-def «auditor.foulOnBad» : Nat := 263
-def «auditor.foulOnGood» : Nat := 264
-def «collector.cfg» : Nat := 265
-def «collector.errCh» : Nat := 266
-def «collector.eventCh» : Nat := 267
-def «collector.logger» : Nat := 268
-def «collector.r» : Nat := 269
-def «collector.stopper» : Nat := 270
-def «collectorState.badCounts» : Nat := 271
-def «collectorState.goodCounts» : Nat := 272
-def «config.actorNames» : Nat := 273
-def «config.actorNames[]» : Nat := 274
-def «config.actors» : Nat := 275
-def «config.actors[]» : Nat := 276
-def «config.audience» : Nat := 277
-def «config.audienceNames» : Nat := 278
-def «config.audienceNames[]» : Nat := 279
-def «config.audience[]» : Nat := 280
-def «config.avoidTimeProgress» : Nat := 281
-def «config.defines[]» : Nat := 282
-def «config.extraInterpretation[]» : Nat := 283
-def «config.extraScript[]» : Nat := 284
-def «config.gnuplotPath» : Nat := 285
-def «config.narration» : Nat := 286
-def «config.pVars» : Nat := 287
-def «config.repeatActNum» : Nat := 288
-def «config.repeatCount» : Nat := 289
-def «config.repeatFrom» : Nat := 290
-def «config.repeatTimeout» : Nat := 291
-def «config.roles» : Nat := 292
-def «config.sceneSpecChars» : Nat := 293
-def «config.sceneSpecChars[]» : Nat := 294
-def «config.sceneSpecs» : Nat := 295
-def «config.sceneSpecs[]» : Nat := 296
-def «config.shellPath» : Nat := 297
-def «config.skipLoggingInit» : Nat := 298
-def «config.storyLine» : Nat := 299
-def «config.storyLine[]» : Nat := 300
-def «config.tempo» : Nat := 301
-def «config.textPlotHeight» : Nat := 302
-def «config.textPlotTerm» : Nat := 303
-def «config.textPlotWidth» : Nat := 304
-def «config.vars» : Nat := 305
-def «exec.Cmd.Args» : Nat := 306
-def «exec.Cmd.Process» : Nat := 307
-def «exec.Cmd.ProcessState» : Nat := 308
-def «exec.Cmd.Stderr» : Nat := 309
-def «expr.compiled» : Nat := 310
-def «expr.deps» : Nat := 311
-def «expr.deps[]» : Nat := 312
-def «expr.src» : Nat := 313
-def «fsm.edges[]» : Nat := 314
-def «fsm.edges[][]» : Nat := 315
-def «fsm.labels[]» : Nat := 316
-def «fsm.stateNames[]» : Nat := 317
-def «fsmEval.labelMap[]» : Nat := 318
-def «govaluate.EvaluableExpression» : Nat := 319
-def «local Run.cfg» : Nat := 320
-def «local actor.runActorCommandWithConsumer.cmd» : Nat := 321
-def «local actor.runActorCommandWithConsumer.consumer» : Nat := 322
-def «local actor.runActorCommandWithConsumer.ctx» : Nat := 323
-def «local actor.runActorCommandWithConsumer.interrupt» : Nat := 324
-def «local actor.runActorCommandWithConsumer.killCmd» : Nat := 325
-def «local actor.runActorCommandWithConsumer.lines» : Nat := 326
-def «local actor.runActorCommandWithConsumer.readerDone» : Nat := 327
-def «local actor.runActorCommandWithConsumer.stopRequested» : Nat := 328
-def «local actor.runActorCommandWithConsumer.termCh» : Nat := 329
-def «local actor.runActorCommandWithConsumer.waitDone» : Nat := 330
-def «local app.collectArtifactsRec.ap» : Nat := 331
-def «local app.collectArtifactsRec.dir» : Nat := 332
-def «local app.removeNonUploadableFiles.ap» : Nat := 333
-def «local app.runConduct.ap» : Nat := 334
-def «local app.runConduct.ctx» : Nat := 335
-def «local app.runConduct.errChan» : Nat := 336
-def «local app.runConduct.infoCh» : Nat := 337
-def «local app.runConduct.shutdownCtx» : Nat := 338
-def «local app.runForAllActors.a» : Nat := 339
-def «local app.runForAllActors.ap» : Nat := 340
-def «local app.runForAllActors.errCh» : Nat := 341
-def «local app.runForAllActors.pScript» : Nat := 342
-def «local audition.startAudition.au» : Nat := 343
-def «local collector.startCollector.col» : Nat := 344
-def «local config.parseRole.parserNames» : Nat := 345
-def «local config.parseRole.thisRole» : Nat := 346
-def «local config.preprocReplace.cfg» : Nat := 347
-def «local fw.cat» : Nat := 348
-def «local prompter.runScene.a» : Nat := 349
-def «local prompter.runScene.errCh» : Nat := 350
-def «local prompter.runScene.pr» : Nat := 351
-def «local prompter.runScene.steps» : Nat := 352
-def «local prompter.runScene.stopOnError» : Nat := 353
-def «local prompter.startPrompter.pr» : Nat := 354
-def «local runAsyncTask.w» : Nat := 355
-def «local runReaderAsync.lines» : Nat := 356
-def «local runReaderAsync.rd» : Nat := 357
-def «local runReaderAsync.readCtx» : Nat := 358
-def «local runReaderAsync.readerDone» : Nat := 359
-def «local runWorker.fullName» : Nat := 360
-def «local runWorker.w» : Nat := 361
-def «local spotMgr.manageSpotlights.a» : Nat := 362
-def «local spotMgr.manageSpotlights.errCh» : Nat := 363
-def «local spotMgr.manageSpotlights.spm» : Nat := 364
-def «local spotMgr.manageSpotlights.spotCtx» : Nat := 365
-def «local spotMgr.spotlight.a» : Nat := 366
-def «local spotMgr.spotlight.ctx» : Nat := 367
-def «local spotMgr.spotlight.spm» : Nat := 368
-def «local spotMgr.startSpotlights.spm» : Nat := 369
-def «map[string]string[]» : Nat := 370
-def «moodChange.newMood» : Nat := 371
-def «moodChange.ts» : Nat := 372
-def «moodPeriod.endTime» : Nat := 373
-def «moodPeriod.mood» : Nat := 374
-def «moodPeriod.startTime» : Nat := 375
-def «observation.ts» : Nat := 376
-def «observation.typ» : Nat := 377
-def «observation.val» : Nat := 378
-def «observer.disablePlot» : Nat := 379
-def «observer.obsVarNames» : Nat := 380
-def «observer.obsVars» : Nat := 381
-def «observer.obsVars[]» : Nat := 382
-def «observer.ylabel» : Nat := 383
-def «os.Process.Pid» : Nat := 384
-def «outputFiles.files» : Nat := 385
-def «outputFiles.writers» : Nat := 386
-def «parser.re» : Nat := 387
-def «pflag.Flag.Changed» : Nat := 388
-def «pflag.Flag.Value» : Nat := 389
-def «plot.fName» : Nat := 390
-def «plot.opts» : Nat := 391
-def «plot.title» : Nat := 392
-def «plotgroup.numEvents» : Nat := 393
-def «plotgroup.plots» : Nat := 394
-def «plotgroup.title» : Nat := 395
-def «plotgroup.ylabel» : Nat := 396
-def «pos.lineno» : Nat := 397
-def «pos.r» : Nat := 398
-def «prompter.auditCh» : Nat := 399
-def «prompter.cfg» : Nat := 400
-def «prompter.collCh» : Nat := 401
-def «prompter.errCh» : Nat := 402
-def «prompter.numRepeats» : Nat := 403
-def «prompter.r» : Nat := 404
-def «prompter.stopper» : Nat := 405
-def «prompter.termCh» : Nat := 406
-def «reader.diffs» : Nat := 407
-def «reader.includePath» : Nat := 408
+def «reader.includePath» : Nat := 107
+def «reader.readers» : Nat := 108
+def «reader.readers[]» : Nat := 109
+def «role.actionCmds[]» : Nat := 110
+def «role.actionNames» : Nat := 111
+def «role.actionNames[]» : Nat := 112
+def «role.cleanupCmd» : Nat := 113
+def «role.sigNames» : Nat := 114
+def «role.sigNames[]» : Nat := 115
+def «role.sigParsers» : Nat := 116
+def «role.sigParsers[]» : Nat := 117
+def «role.spotlightCmd» : Nat := 118
+def «scene.concurrentLines» : Nat := 119
+def «scene.concurrentLines[]» : Nat := 120
+def «scene.waitUntil» : Nat := 121
+def «scriptLine.steps» : Nat := 122
+def «scriptLine.steps[]» : Nat := 123
+def «sigEvent.values» : Nat := 124
+def «sigEvent.values[]» : Nat := 125
+def «sink.lastVal» : Nat := 126
+def «subreader.lineno» : Nat := 127
+def «subreader.lines» : Nat := 128
+def «subreader.lines[]» : Nat := 129
+def «subreader.parent» : Nat := 130
+def «timeutil.Timer.Read» : Nat := 131
+def «var actionDefRe» : Nat := 132
+def «var activeRe» : Nat := 133
+def «var actorDefRe» : Nat := 134
+def «var actorsRe» : Nat := 135
+def «var adjList» : Nat := 136
+def «var advList» : Nat := 137
+def «var audienceRe» : Nat := 138
+def «var automata» : Nat := 139
+def «var cleanupDefRe» : Nat := 140
+def «var collectFns» : Nat := 141
+def «var collectsRe» : Nat := 142
+def «var computesRe» : Nat := 143
+def «var editRe» : Nat := 144
+def «var entailsRe» : Nat := 145
+def «var errAuditViolation» : Nat := 146
+def «var errInterrupted» : Nat := 147
+def «var evalFunctions» : Nat := 148
+def «var evalFunctions[]» : Nat := 149
+def «var expectsRe» : Nat := 150
+def «var expectsSameRe» : Nat := 151
+def «var foulRe» : Nat := 152
+def «var identRe» : Nat := 153
+def «var ignoreRe» : Nat := 154
+def «var init$guard» : Nat := 155
+def «var interpretationRe» : Nat := 156
+def «var measuresRe» : Nat := 157
+def «var moodChangeRe» : Nat := 158
+def «var narratorCtx» : Nat := 159
+def «var noPlotRe» : Nat := 160
+def «var nounsList» : Nat := 161
+def «var paramRe» : Nat := 162
+def «var parseDefRe» : Nat := 163
+def «var preprocRe» : Nat := 164
+def «var registry» : Nat := 165
+def «var repeatAlwaysRe» : Nat := 166
+def «var repeatCountRe» : Nat := 167
+def «var repeatRe» : Nat := 168
+def «var repeatTimeoutRe» : Nat := 169
+def «var roleRe» : Nat := 170
+def «var scriptRe» : Nat := 171
+def «var spotlightDefRe» : Nat := 172
+def «var storyLineRe» : Nat := 173
+def «var tempoRe» : Nat := 174
+def «var watchRe» : Nat := 175
+def «var watchVarRe» : Nat := 176
+def «variable.watcherNames» : Nat := 177
+def «variable.watcherNames[]» : Nat := 178
+def «variable.watchers[]» : Nat := 179
+def «workerRegistry.mu.numWorkers» : Nat := 180
+def «workerRegistry.mu.workers[]» : Nat := 181
+def «Artifact.ContentType» : Nat := 182
+def «Artifact.FileName» : Nat := 183
+def «Artifact.Icon» : Nat := 184
+def «Artifact.IsDir» : Nat := 185
+def «Artifact.Path» : Nat := 186
+def «RepeatSection.StartTime» : Nat := 187
+def «Result.Authors» : Nat := 188
+def «Result.Config» : Nat := 189
+def «Result.ConfigHTML» : Nat := 190
+def «Result.ConfigHash» : Nat := 191
+def «Result.ConfigHashHTML» : Nat := 192
+def «Result.Diffs» : Nat := 193
+def «Result.Error» : Nat := 194
+def «Result.Foul» : Nat := 195
+def «Result.MaxTime» : Nat := 196
+def «Result.MinTime» : Nat := 197
+def «Result.PlayDuration» : Nat := 198
+def «Result.PlayDurationVerbose» : Nat := 199
+def «Result.Repeat» : Nat := 200
+def «Result.SeeAlso» : Nat := 201
+def «Result.Steps» : Nat := 202
+def «Result.StepsHTML» : Nat := 203
+def «Result.Timestamp» : Nat := 204
+def «Result.TimestampHTML» : Nat := 205
+def «Result.Title» : Nat := 206
+def «Result.Version» : Nat := 207
+def «[]*logtags.Buffer[]» : Nat := 208
+def «[]func()[]» : Nat := 209
+def «[]reflect.Value[]» : Nat := 210
+def «[]string[]» : Nat := 211
+def «actChange.actNum» : Nat := 212
+def «actChange.ts» : Nat := 213
+def «actionGroup.actions» : Nat := 214
+def «actionGroup.actions[]» : Nat := 215
+def «actionGroup.actor» : Nat := 216
+def «actionReport.action» : Nat := 217
+def «actionReport.actor» : Nat := 218
+def «actionReport.duration» : Nat := 219
+def «actionReport.extOutput» : Nat := 220
+def «actionReport.output» : Nat := 221
+def «actionReport.result» : Nat := 222
+def «actionReport.startTime» : Nat := 223
+def «actor.actionScripts» : Nat := 224
+def «actor.extraEnv» : Nat := 225
+def «actor.name» : Nat := 226
+def «actor.role» : Nat := 227
+def «actor.shellPath» : Nat := 228
+def «actor.sinkNames» : Nat := 229
+def «actor.sinkNames[]» : Nat := 230
+def «actor.sinks» : Nat := 231
+def «actor.sinks[]» : Nat := 232
+def «app.cfg» : Nat := 233
+def «app.endCh» : Nat := 234
+def «app.log» : Nat := 235
+def «assignment.N» : Nat := 236
+def «assignment.assignMode» : Nat := 237
+def «assignment.targetVar» : Nat := 238
+def «audClause.defines» : Nat := 239
+def «audClause.text» : Nat := 240
+def «audClause.uses» : Nat := 241
+def «audClause.uses[]» : Nat := 242
+def «audienceMember.name» : Nat := 243
+def «auditError.auditor» : Nat := 244
+def «auditError.error» : Nat := 245
+def «auditError.ts» : Nat := 246
+def «auditableValue.typ» : Nat := 247
+def «auditableValue.val» : Nat := 248
+def «audition.cfg» : Nat := 249
+def «audition.collCh» : Nat := 250
+def «audition.errCh» : Nat := 251
+def «audition.eventCh» : Nat := 252
+def «audition.logger» : Nat := 253
+def «audition.r» : Nat := 254
+def «audition.res» : Nat := 255
+def «audition.stopper» : Nat := 256
+def «auditionReport.auditor» : Nat := 257
+def «auditionReport.ts» : Nat := 258
+def «auditionState.auditorStates» : Nat := 259
+def «auditionState.curActivated» : Nat := 260
+def «auditionState.curVals» : Nat := 261
+def «auditor.assignments» : Nat := 262
+def «auditor.expectFsm» : Nat := 263
+def «auditor.foulOnBad» : Nat := 264
+def «auditor.foulOnGood» : Nat := 265
+def «collector.cfg» : Nat := 266
+def «collector.errCh» : Nat := 267
+def «collector.eventCh» : Nat := 268
+def «collector.logger» : Nat := 269
+def «collector.r» : Nat := 270
+def «collector.stopper» : Nat := 271
+def «collectorState.badCounts» : Nat := 272
+def «collectorState.goodCounts» : Nat := 273
+def «config.actorNames» : Nat := 274
+def «config.actorNames[]» : Nat := 275
+def «config.actors» : Nat := 276
+def «config.actors[]» : Nat := 277
+def «config.audience» : Nat := 278
+def «config.audienceNames» : Nat := 279
+def «config.audienceNames[]» : Nat := 280
+def «config.audience[]» : Nat := 281
+def «config.avoidTimeProgress» : Nat := 282
+def «config.defines[]» : Nat := 283
+def «config.extraInterpretation[]» : Nat := 284
+def «config.extraScript[]» : Nat := 285
+def «config.gnuplotPath» : Nat := 286
+def «config.narration» : Nat := 287
+def «config.pVars» : Nat := 288
+def «config.repeatActNum» : Nat := 289
+def «config.repeatCount» : Nat := 290
+def «config.repeatFrom» : Nat := 291
+def «config.repeatTimeout» : Nat := 292
+def «config.roles» : Nat := 293
+def «config.sceneSpecChars» : Nat := 294
+def «config.sceneSpecChars[]» : Nat := 295
+def «config.sceneSpecs» : Nat := 296
+def «config.sceneSpecs[]» : Nat := 297
+def «config.shellPath» : Nat := 298
+def «config.skipLoggingInit» : Nat := 299
+def «config.storyLine» : Nat := 300
+def «config.storyLine[]» : Nat := 301
+def «config.tempo» : Nat := 302
+def «config.textPlotHeight» : Nat := 303
+def «config.textPlotTerm» : Nat := 304
+def «config.textPlotWidth» : Nat := 305
+def «config.vars» : Nat := 306
+def «exec.Cmd.Args» : Nat := 307
+def «exec.Cmd.Process» : Nat := 308
+def «exec.Cmd.ProcessState» : Nat := 309
+def «exec.Cmd.Stderr» : Nat := 310
+def «expr.compiled» : Nat := 311
+def «expr.deps» : Nat := 312
+def «expr.deps[]» : Nat := 313
+def «expr.src» : Nat := 314
+def «fsm.edges[]» : Nat := 315
+def «fsm.edges[][]» : Nat := 316
+def «fsm.labels[]» : Nat := 317
+def «fsm.stateNames[]» : Nat := 318
+def «fsmEval.labelMap[]» : Nat := 319
+def «govaluate.EvaluableExpression» : Nat := 320
+def «local Run.cfg» : Nat := 321
+def «local actor.runActorCommandWithConsumer.cmd» : Nat := 322
+def «local actor.runActorCommandWithConsumer.consumer» : Nat := 323
+def «local actor.runActorCommandWithConsumer.ctx» : Nat := 324
+def «local actor.runActorCommandWithConsumer.interrupt» : Nat := 325
+def «local actor.runActorCommandWithConsumer.killCmd» : Nat := 326
+def «local actor.runActorCommandWithConsumer.lines» : Nat := 327
+def «local actor.runActorCommandWithConsumer.readerDone» : Nat := 328
+def «local actor.runActorCommandWithConsumer.stopRequested» : Nat := 329
+def «local actor.runActorCommandWithConsumer.termCh» : Nat := 330
+def «local actor.runActorCommandWithConsumer.waitDone» : Nat := 331
+def «local app.collectArtifactsRec.ap» : Nat := 332
+def «local app.collectArtifactsRec.dir» : Nat := 333
+def «local app.removeNonUploadableFiles.ap» : Nat := 334
+def «local app.runConduct.ap» : Nat := 335
+def «local app.runConduct.ctx» : Nat := 336
+def «local app.runConduct.errChan» : Nat := 337
+def «local app.runConduct.infoCh» : Nat := 338
+def «local app.runConduct.shutdownCtx» : Nat := 339
+def «local app.runForAllActors.a» : Nat := 340
+def «local app.runForAllActors.ap» : Nat := 341
+def «local app.runForAllActors.errCh» : Nat := 342
+def «local app.runForAllActors.pScript» : Nat := 343
+def «local audition.startAudition.au» : Nat := 344
+def «local collector.startCollector.col» : Nat := 345
+def «local config.parseRole.parserNames» : Nat := 346
+def «local config.parseRole.thisRole» : Nat := 347
+def «local config.preprocReplace.cfg» : Nat := 348
+def «local fw.cat» : Nat := 349
+def «local prompter.runScene.a» : Nat := 350
+def «local prompter.runScene.errCh» : Nat := 351
+def «local prompter.runScene.pr» : Nat := 352
+def «local prompter.runScene.steps» : Nat := 353
+def «local prompter.runScene.stopOnError» : Nat := 354
+def «local prompter.startPrompter.pr» : Nat := 355
+def «local runAsyncTask.w» : Nat := 356
+def «local runReaderAsync.lines» : Nat := 357
+def «local runReaderAsync.rd» : Nat := 358
+def «local runReaderAsync.readCtx» : Nat := 359
+def «local runReaderAsync.readerDone» : Nat := 360
+def «local runWorker.fullName» : Nat := 361
+def «local runWorker.w» : Nat := 362
+def «local spotMgr.manageSpotlights.a» : Nat := 363
+def «local spotMgr.manageSpotlights.errCh» : Nat := 364
+def «local spotMgr.manageSpotlights.spm» : Nat := 365
+def «local spotMgr.manageSpotlights.spotCtx» : Nat := 366
+def «local spotMgr.spotlight.a» : Nat := 367
+def «local spotMgr.spotlight.ctx» : Nat := 368
+def «local spotMgr.spotlight.spm» : Nat := 369
+def «local spotMgr.startSpotlights.spm» : Nat := 370
+def «map[string]string[]» : Nat := 371
+def «moodChange.newMood» : Nat := 372
+def «moodChange.ts» : Nat := 373
+def «moodPeriod.endTime» : Nat := 374
+def «moodPeriod.mood» : Nat := 375
+def «moodPeriod.startTime» : Nat := 376
+def «observation.ts» : Nat := 377
+def «observation.typ» : Nat := 378
+def «observation.val» : Nat := 379
+def «observer.disablePlot» : Nat := 380
+def «observer.obsVarNames» : Nat := 381
+def «observer.obsVars» : Nat := 382
+def «observer.obsVars[]» : Nat := 383
+def «observer.ylabel» : Nat := 384
+def «os.Process.Pid» : Nat := 385
+def «outputFiles.files» : Nat := 386
+def «outputFiles.writers» : Nat := 387
+def «parser.re» : Nat := 388
+def «pflag.Flag.Changed» : Nat := 389
+def «pflag.Flag.Value» : Nat := 390
+def «plot.fName» : Nat := 391
+def «plot.opts» : Nat := 392
+def «plot.title» : Nat := 393
+def «plotgroup.numEvents» : Nat := 394
+def «plotgroup.plots» : Nat := 395
+def «plotgroup.title» : Nat := 396
+def «plotgroup.ylabel» : Nat := 397
+def «pos.lineno» : Nat := 398
+def «pos.r» : Nat := 399
+def «prompter.auditCh» : Nat := 400
+def «prompter.cfg» : Nat := 401
+def «prompter.collCh» : Nat := 402
+def «prompter.errCh» : Nat := 403
+def «prompter.numRepeats» : Nat := 404
+def «prompter.r» : Nat := 405
+def «prompter.stopper» : Nat := 406
+def «prompter.termCh» : Nat := 407
+def «reader.diffs» : Nat := 408
 def «reader.includePath[]» : Nat := 409
 def «role.actionCmds» : Nat := 410
 def «role.name» : Nat := 411
@@ -819,13 +820,13 @@ def g16 : List Access := [
 def g17 : List Access := [
   A 1 17 false false [] true [(5, .pre), (6, .pre), (7, .pre), (8, .pre)],  -- app.makeTheater conductor.go:203 
   A 1 17 false false [] true [(9, .mid)],  -- app.runForAllActors conductor.go:376 
-  A 3 17 false false [] false [],  -- app.runConduct$2$1 run.go:283 
-  A 2 17 false false [] false [],  -- app.runConduct$3 run.go:357 
+  A 3 17 false false [] false [],  -- app.runConduct$2$1 run.go:287 
+  A 2 17 false false [] false [],  -- app.runConduct$3 run.go:361 
   A 9 17 false false [] true [(12, .pre), (13, .pre), (14, .pre)],  -- app.runForAllActors$3 conductor.go:383 
-  A 0 17 true false [] false [(1, .pre), (2, .pre), (3, .pre), (4, .mid)],  -- app.runConduct run.go:256 
-  A 0 17 false false [] false [(1, .pre), (2, .pre), (3, .pre), (4, .mid)],  -- app.runConduct run.go:259 
-  A 0 17 false false [] false [(1, .mid), (2, .pre), (3, .mid), (4, .mid)],  -- app.runConduct run.go:307 
-  A 0 17 false false [] false [(1, .mid), (2, .mid), (3, .mid), (4, .mid)]  -- app.runConduct run.go:383 
+  A 0 17 true false [] false [(1, .pre), (2, .pre), (3, .pre), (4, .mid)],  -- app.runConduct run.go:260 
+  A 0 17 false false [] false [(1, .pre), (2, .pre), (3, .pre), (4, .mid)],  -- app.runConduct run.go:263 
+  A 0 17 false false [] false [(1, .mid), (2, .pre), (3, .mid), (4, .mid)],  -- app.runConduct run.go:311 
+  A 0 17 false false [] false [(1, .mid), (2, .mid), (3, .mid), (4, .mid)]  -- app.runConduct run.go:392 
 ]
 
 /-- app.terminalWidth -/
@@ -1070,7 +1071,7 @@ def g52 : List Access := [
 
 /-- config.doPrint -/
 def g53 : List Access := [
-  A 0 53 false false [] false [(1, .pre), (2, .pre), (3, .pre), (4, .pre)],  -- Run run.go:112 
+  A 0 53 false false [] false [(1, .pre), (2, .pre), (3, .pre), (4, .pre)],  -- Run run.go:116 
   A 0 53 true false [] false [(1, .pre), (2, .pre), (3, .pre), (4, .pre)]  -- config.initArgs config.go:133 ext:spf13/pflag.BoolVarP
 ]
 
@@ -1082,7 +1083,7 @@ def g54 : List Access := [
 
 /-- config.extraInterpretation -/
 def g55 : List Access := [
-  A 0 55 false false [] false [(1, .pre), (2, .pre), (3, .pre), (4, .pre)],  -- Run run.go:98 
+  A 0 55 false false [] false [(1, .pre), (2, .pre), (3, .pre), (4, .pre)],  -- Run run.go:101 
   A 0 55 true false [] false [(1, .pre), (2, .pre), (3, .pre), (4, .pre)]  -- config.initArgs config.go:143 ext:spf13/pflag.StringSliceVarP
 ]
 
@@ -1094,7 +1095,7 @@ def g56 : List Access := [
 
 /-- config.includePath -/
 def g57 : List Access := [
-  A 0 57 false false [] false [(1, .pre), (2, .pre), (3, .pre), (4, .pre)],  -- Run$2 run.go:63 
+  A 0 57 false false [] false [(1, .pre), (2, .pre), (3, .pre), (4, .pre)],  -- Run run.go:109 
   A 0 57 true false [] false [(1, .pre), (2, .pre), (3, .pre), (4, .pre)]  -- config.initArgs config.go:137 ext:spf13/pflag.StringSliceVarP
 ]
 
@@ -1106,7 +1107,7 @@ def g58 : List Access := [
 /-- config.keepArtifacts -/
 def g59 : List Access := [
   A 0 59 true false [] false [(1, .pre), (2, .pre), (3, .pre), (4, .pre)],  -- config.initArgs config.go:132 ext:spf13/pflag.BoolVarP
-  A 0 59 false false [] false [(1, .post), (2, .mid), (3, .mid), (4, .mid)]  -- config.run$4 run.go:203 
+  A 0 59 false false [] false [(1, .post), (2, .mid), (3, .mid), (4, .mid)]  -- config.run$4 run.go:207 
 ]
 
 /-- config.pVarNames -/
@@ -1128,7 +1129,7 @@ def g62 : List Access := [
 
 /-- config.parseOnly -/
 def g63 : List Access := [
-  A 0 63 false false [] false [(1, .pre), (2, .pre), (3, .pre), (4, .pre)],  -- Run run.go:127 
+  A 0 63 false false [] false [(1, .pre), (2, .pre), (3, .pre), (4, .pre)],  -- Run run.go:131 
   A 0 63 true false [] false [(1, .pre), (2, .pre), (3, .pre), (4, .pre)]  -- config.initArgs config.go:134 ext:spf13/pflag.BoolVarP
 ]
 
@@ -1166,7 +1167,7 @@ def g66 : List Access := [
 /-- config.removeAll -/
 def g67 : List Access := [
   A 0 67 true false [] false [(1, .pre), (2, .pre), (3, .pre), (4, .pre)],  -- config.initArgs config.go:131 ext:spf13/pflag.BoolVar
-  A 0 67 false false [] false [(1, .post), (2, .mid), (3, .mid), (4, .mid)]  -- config.run$2 run.go:167 
+  A 0 67 false false [] false [(1, .post), (2, .mid), (3, .mid), (4, .mid)]  -- config.run$2 run.go:171 
 ]
 
 /-- config.roleNames -/
@@ -1208,7 +1209,7 @@ def g72 : List Access := [
 /-- config.skipPlot -/
 def g73 : List Access := [
   A 0 73 true false [] false [(1, .pre), (2, .pre), (3, .pre), (4, .pre)],  -- config.initArgs config.go:139 ext:spf13/pflag.BoolVar
-  A 0 73 false false [] false [(1, .post), (2, .mid), (3, .mid), (4, .mid)]  -- config.run run.go:228 
+  A 0 73 false false [] false [(1, .post), (2, .mid), (3, .mid), (4, .mid)]  -- config.run run.go:232 
 ]
 
 /-- config.subDir -/
@@ -1452,528 +1453,534 @@ def g106 : List Access := [
   A 0 106 true false [] false [(1, .pre), (2, .pre), (3, .pre), (4, .pre)]  -- newReader reader.go:53 
 ]
 
-/-- reader.readers -/
+/-- reader.includePath -/
 def g107 : List Access := [
-  A 0 107 false false [] false [(1, .pre), (2, .pre), (3, .pre), (4, .pre)],  -- reader.close reader.go:120 
-  A 0 107 true false [] false [(1, .pre), (2, .pre), (3, .pre), (4, .pre)]  -- subreader.readLine reader.go:223 
+  A 0 107 true false [] false [(1, .pre), (2, .pre), (3, .pre), (4, .pre)],  -- Run run.go:109 
+  A 0 107 false false [] false [(1, .pre), (2, .pre), (3, .pre), (4, .pre)]  -- subreader.readLine reader.go:255 
+]
+
+/-- reader.readers -/
+def g108 : List Access := [
+  A 0 108 false false [] false [(1, .pre), (2, .pre), (3, .pre), (4, .pre)],  -- reader.close reader.go:120 
+  A 0 108 true false [] false [(1, .pre), (2, .pre), (3, .pre), (4, .pre)]  -- subreader.readLine reader.go:226 
 ]
 
 /-- reader.readers[] -/
-def g108 : List Access := [
-  A 0 108 false false [] false [(1, .pre), (2, .pre), (3, .pre), (4, .pre)],  -- reader.close reader.go:121 
-  A 0 108 true false [] false [(1, .pre), (2, .pre), (3, .pre), (4, .pre)]  -- subreader.readLine reader.go:259 
+def g109 : List Access := [
+  A 0 109 false false [] false [(1, .pre), (2, .pre), (3, .pre), (4, .pre)],  -- reader.close reader.go:121 
+  A 0 109 true false [] false [(1, .pre), (2, .pre), (3, .pre), (4, .pre)]  -- subreader.readLine reader.go:262 
 ]
 
 /-- role.actionCmds[] -/
-def g109 : List Access := [
-  A 0 109 false false [] false [(1, .pre), (2, .pre), (3, .pre), (4, .pre)],  -- actor.prepareActionCommands commands.go:281 
-  A 0 109 true false [] false [(1, .pre), (2, .pre), (3, .pre), (4, .pre)],  -- config.parseRole$1 parsecfg.go:600 
-  A 0 109 false false [] false [(2, .mid), (3, .mid), (4, .mid)]  -- config.printCfg config.go:357 
+def g110 : List Access := [
+  A 0 110 false false [] false [(1, .pre), (2, .pre), (3, .pre), (4, .pre)],  -- actor.prepareActionCommands commands.go:281 
+  A 0 110 true false [] false [(1, .pre), (2, .pre), (3, .pre), (4, .pre)],  -- config.parseRole$1 parsecfg.go:600 
+  A 0 110 false false [] false [(2, .mid), (3, .mid), (4, .mid)]  -- config.printCfg config.go:357 
 ]
 
 /-- role.actionNames -/
-def g110 : List Access := [
-  A 0 110 false false [] false [(1, .pre), (2, .pre), (3, .pre), (4, .pre)],  -- config.parseRole$1 parsecfg.go:598 
-  A 0 110 true false [] false [(1, .pre), (2, .pre), (3, .pre), (4, .pre)],  -- config.parseRole$1 parsecfg.go:598 
-  A 0 110 false false [] false [(2, .mid), (3, .mid), (4, .mid)]  -- config.printCfg config.go:356 
+def g111 : List Access := [
+  A 0 111 false false [] false [(1, .pre), (2, .pre), (3, .pre), (4, .pre)],  -- config.parseRole$1 parsecfg.go:598 
+  A 0 111 true false [] false [(1, .pre), (2, .pre), (3, .pre), (4, .pre)],  -- config.parseRole$1 parsecfg.go:598 
+  A 0 111 false false [] false [(2, .mid), (3, .mid), (4, .mid)]  -- config.printCfg config.go:356 
 ]
 
 /-- role.actionNames[] -/
-def g111 : List Access := [
-  A 0 111 true false [] false [(1, .pre), (2, .pre), (3, .pre), (4, .pre)],  -- config.parseRole$1 parsecfg.go:598 
-  A 0 111 false false [] false [(2, .mid), (3, .mid), (4, .mid)],  -- config.printCfg ? 
-  A 0 111 false false [] false [(1, .pre), (2, .pre), (3, .pre), (4, .pre)]  -- role.clone config.go:619 
+def g112 : List Access := [
+  A 0 112 true false [] false [(1, .pre), (2, .pre), (3, .pre), (4, .pre)],  -- config.parseRole$1 parsecfg.go:598 
+  A 0 112 false false [] false [(2, .mid), (3, .mid), (4, .mid)],  -- config.printCfg ? 
+  A 0 112 false false [] false [(1, .pre), (2, .pre), (3, .pre), (4, .pre)]  -- role.clone config.go:619 
 ]
 
 /-- role.cleanupCmd -/
-def g112 : List Access := [
-  A 0 112 false false [] false [(1, .pre), (2, .pre), (3, .pre), (4, .pre)],  -- actor.prepareActionCommands commands.go:295 
-  A 0 112 true false [] false [(1, .pre), (2, .pre), (3, .pre), (4, .pre)],  -- config.parseRole$1 parsecfg.go:604 
-  A 0 112 false false [] false [(2, .mid), (3, .mid), (4, .mid)]  -- config.printCfg config.go:347 
+def g113 : List Access := [
+  A 0 113 false false [] false [(1, .pre), (2, .pre), (3, .pre), (4, .pre)],  -- actor.prepareActionCommands commands.go:295 
+  A 0 113 true false [] false [(1, .pre), (2, .pre), (3, .pre), (4, .pre)],  -- config.parseRole$1 parsecfg.go:604 
+  A 0 113 false false [] false [(2, .mid), (3, .mid), (4, .mid)]  -- config.printCfg config.go:347 
 ]
 
 /-- role.sigNames -/
-def g113 : List Access := [
-  A 0 113 false false [] false [(1, .pre), (2, .pre), (3, .pre), (4, .pre)],  -- config.parseRole parsecfg.go:582 
-  A 0 113 true false [] false [(1, .pre), (2, .pre), (3, .pre), (4, .pre)]  -- config.parseRole$1 parsecfg.go:672 
-]
-
-/-- role.sigNames[] -/
 def g114 : List Access := [
-  A 0 114 false false [] false [(1, .pre), (2, .pre), (3, .pre), (4, .pre)],  -- config.parseRole ? 
+  A 0 114 false false [] false [(1, .pre), (2, .pre), (3, .pre), (4, .pre)],  -- config.parseRole parsecfg.go:582 
   A 0 114 true false [] false [(1, .pre), (2, .pre), (3, .pre), (4, .pre)]  -- config.parseRole$1 parsecfg.go:672 
 ]
 
-/-- role.sigParsers -/
+/-- role.sigNames[] -/
 def g115 : List Access := [
-  A 15 115 false false [] true [],  -- spotMgr.detectSignals spotlight.go:184 
-  A 0 115 false false [] false [(1, .pre), (2, .pre), (3, .pre), (4, .pre)],  -- config.parseRole$1 parsecfg.go:671 
-  A 0 115 true false [] false [(1, .pre), (2, .pre), (3, .pre), (4, .pre)],  -- config.parseRole$1 parsecfg.go:671 
-  A 0 115 false false [] false [(2, .mid), (3, .mid), (4, .mid)],  -- config.printCfg config.go:353 
-  A 11 115 false false [] true [(14, .mid), (15, .pre), (16, .pre)]  -- spotMgr.detectSignals spotlight.go:184 
+  A 0 115 false false [] false [(1, .pre), (2, .pre), (3, .pre), (4, .pre)],  -- config.parseRole ? 
+  A 0 115 true false [] false [(1, .pre), (2, .pre), (3, .pre), (4, .pre)]  -- config.parseRole$1 parsecfg.go:672 
+]
+
+/-- role.sigParsers -/
+def g116 : List Access := [
+  A 15 116 false false [] true [],  -- spotMgr.detectSignals spotlight.go:184 
+  A 0 116 false false [] false [(1, .pre), (2, .pre), (3, .pre), (4, .pre)],  -- config.parseRole$1 parsecfg.go:671 
+  A 0 116 true false [] false [(1, .pre), (2, .pre), (3, .pre), (4, .pre)],  -- config.parseRole$1 parsecfg.go:671 
+  A 0 116 false false [] false [(2, .mid), (3, .mid), (4, .mid)],  -- config.printCfg config.go:353 
+  A 11 116 false false [] true [(14, .mid), (15, .pre), (16, .pre)]  -- spotMgr.detectSignals spotlight.go:184 
 ]
 
 /-- role.sigParsers[] -/
-def g116 : List Access := [
-  A 15 116 false false [] true [],  -- spotMgr.detectSignals ? 
-  A 0 116 true false [] false [(1, .pre), (2, .pre), (3, .pre), (4, .pre)],  -- config.parseRole$1 parsecfg.go:671 
-  A 0 116 false false [] false [(2, .mid), (3, .mid), (4, .mid)],  -- config.printCfg ? 
-  A 0 116 false false [] false [(1, .pre), (2, .pre), (3, .pre), (4, .pre)],  -- role.clone config.go:620 
-  A 11 116 false false [] true [(14, .mid), (15, .pre), (16, .pre)]  -- spotMgr.detectSignals ? 
+def g117 : List Access := [
+  A 15 117 false false [] true [],  -- spotMgr.detectSignals ? 
+  A 0 117 true false [] false [(1, .pre), (2, .pre), (3, .pre), (4, .pre)],  -- config.parseRole$1 parsecfg.go:671 
+  A 0 117 false false [] false [(2, .mid), (3, .mid), (4, .mid)],  -- config.printCfg ? 
+  A 0 117 false false [] false [(1, .pre), (2, .pre), (3, .pre), (4, .pre)],  -- role.clone config.go:620 
+  A 11 117 false false [] true [(14, .mid), (15, .pre), (16, .pre)]  -- spotMgr.detectSignals ? 
 ]
 
 /-- role.spotlightCmd -/
-def g117 : List Access := [
-  A 0 117 false false [] false [(1, .pre), (2, .pre), (3, .pre), (4, .pre)],  -- actor.prepareActionCommands commands.go:288 
-  A 0 117 true false [] false [(1, .pre), (2, .pre), (3, .pre), (4, .pre)],  -- config.parseRole$1 parsecfg.go:602 
-  A 0 117 false false [] false [(2, .mid), (3, .mid), (4, .mid)],  -- config.printCfg config.go:350 
-  A 6 117 false false [] true [(11, .mid)]  -- spotMgr.manageSpotlights spotlight.go:65 
+def g118 : List Access := [
+  A 0 118 false false [] false [(1, .pre), (2, .pre), (3, .pre), (4, .pre)],  -- actor.prepareActionCommands commands.go:288 
+  A 0 118 true false [] false [(1, .pre), (2, .pre), (3, .pre), (4, .pre)],  -- config.parseRole$1 parsecfg.go:602 
+  A 0 118 false false [] false [(2, .mid), (3, .mid), (4, .mid)],  -- config.printCfg config.go:350 
+  A 6 118 false false [] true [(11, .mid)]  -- spotMgr.manageSpotlights spotlight.go:65 
 ]
 
 /-- scene.concurrentLines -/
-def g118 : List Access := [
-  A 0 118 false false [] false [(1, .pre), (2, .pre), (3, .pre), (4, .pre)],  -- config.compileV2 compile.go:60 
-  A 0 118 true false [] false [(1, .pre), (2, .pre), (3, .pre), (4, .pre)],  -- config.compileV2 compile.go:60 
-  A 0 118 false false [] false [(2, .mid), (3, .mid), (4, .mid)],  -- config.printSteps ? 
-  A 5 118 false false [] true []  -- prompter.prompt ? 
+def g119 : List Access := [
+  A 0 119 false false [] false [(1, .pre), (2, .pre), (3, .pre), (4, .pre)],  -- config.compileV2 compile.go:60 
+  A 0 119 true false [] false [(1, .pre), (2, .pre), (3, .pre), (4, .pre)],  -- config.compileV2 compile.go:60 
+  A 0 119 false false [] false [(2, .mid), (3, .mid), (4, .mid)],  -- config.printSteps ? 
+  A 5 119 false false [] true []  -- prompter.prompt ? 
 ]
 
 /-- scene.concurrentLines[] -/
-def g119 : List Access := [
-  A 0 119 true false [] false [(1, .pre), (2, .pre), (3, .pre), (4, .pre)]  -- config.compileV2 compile.go:60 
+def g120 : List Access := [
+  A 0 120 true false [] false [(1, .pre), (2, .pre), (3, .pre), (4, .pre)]  -- config.compileV2 compile.go:60 
 ]
 
 /-- scene.waitUntil -/
-def g120 : List Access := [
-  A 0 120 true false [] false [(1, .pre), (2, .pre), (3, .pre), (4, .pre)],  -- config.compileV2 compile.go:97 
-  A 0 120 false false [] false [(1, .pre), (2, .pre), (3, .pre), (4, .pre)],  -- config.compileV2 compile.go:106 
-  A 0 120 false false [] false [(2, .mid), (3, .mid), (4, .mid)],  -- config.printSteps ? 
-  A 5 120 false false [] true []  -- prompter.prompt ? 
+def g121 : List Access := [
+  A 0 121 true false [] false [(1, .pre), (2, .pre), (3, .pre), (4, .pre)],  -- config.compileV2 compile.go:97 
+  A 0 121 false false [] false [(1, .pre), (2, .pre), (3, .pre), (4, .pre)],  -- config.compileV2 compile.go:106 
+  A 0 121 false false [] false [(2, .mid), (3, .mid), (4, .mid)],  -- config.printSteps ? 
+  A 5 121 false false [] true []  -- prompter.prompt ? 
 ]
 
 /-- scriptLine.steps -/
-def g121 : List Access := [
-  A 0 121 false false [] false [(1, .pre), (2, .pre), (3, .pre), (4, .pre)],  -- config.compileV2 compile.go:72 
-  A 0 121 true false [] false [(1, .pre), (2, .pre), (3, .pre), (4, .pre)],  -- config.compileV2 compile.go:69 
-  A 0 121 false false [] false [(2, .mid), (3, .mid), (4, .mid)],  -- config.printSteps ? 
-  A 5 121 false false [] true [(10, .mid)]  -- prompter.runScene ? 
+def g122 : List Access := [
+  A 0 122 false false [] false [(1, .pre), (2, .pre), (3, .pre), (4, .pre)],  -- config.compileV2 compile.go:72 
+  A 0 122 true false [] false [(1, .pre), (2, .pre), (3, .pre), (4, .pre)],  -- config.compileV2 compile.go:69 
+  A 0 122 false false [] false [(2, .mid), (3, .mid), (4, .mid)],  -- config.printSteps ? 
+  A 5 122 false false [] true [(10, .mid)]  -- prompter.runScene ? 
 ]
 
 /-- scriptLine.steps[] -/
-def g122 : List Access := [
-  A 0 122 true false [] false [(1, .pre), (2, .pre), (3, .pre), (4, .pre)]  -- config.compileV2 compile.go:69 
+def g123 : List Access := [
+  A 0 123 true false [] false [(1, .pre), (2, .pre), (3, .pre), (4, .pre)]  -- config.compileV2 compile.go:69 
 ]
 
 /-- sigEvent.values -/
-def g123 : List Access := [
-  A 15 123 false false [] true [],  -- spotMgr.detectSignals spotlight.go:264 
-  A 15 123 true false [] true [],  -- spotMgr.detectSignals spotlight.go:264 
-  A 8 123 false false [] true [],  -- audition.audit audit.go:230 
-  A 11 123 false false [] true [(14, .mid), (15, .pre), (16, .pre)],  -- spotMgr.detectSignals spotlight.go:264 
-  A 11 123 true false [] true [(14, .mid), (15, .pre), (16, .pre)]  -- spotMgr.detectSignals spotlight.go:264 
-]
-
-/-- sigEvent.values[] -/
 def g124 : List Access := [
+  A 15 124 false false [] true [],  -- spotMgr.detectSignals spotlight.go:264 
   A 15 124 true false [] true [],  -- spotMgr.detectSignals spotlight.go:264 
+  A 8 124 false false [] true [],  -- audition.audit audit.go:230 
+  A 11 124 false false [] true [(14, .mid), (15, .pre), (16, .pre)],  -- spotMgr.detectSignals spotlight.go:264 
   A 11 124 true false [] true [(14, .mid), (15, .pre), (16, .pre)]  -- spotMgr.detectSignals spotlight.go:264 
 ]
 
-/-- sink.lastVal -/
+/-- sigEvent.values[] -/
 def g125 : List Access := [
-  A 15 125 false false [] true [],  -- spotMgr.detectSignals spotlight.go:249 
-  A 15 125 true false [] true [],  -- spotMgr.detectSignals spotlight.go:250 
-  A 11 125 false false [] true [(14, .mid), (15, .pre), (16, .pre)],  -- spotMgr.detectSignals spotlight.go:249 
-  A 11 125 true false [] true [(14, .mid), (15, .pre), (16, .pre)]  -- spotMgr.detectSignals spotlight.go:250 
+  A 15 125 true false [] true [],  -- spotMgr.detectSignals spotlight.go:264 
+  A 11 125 true false [] true [(14, .mid), (15, .pre), (16, .pre)]  -- spotMgr.detectSignals spotlight.go:264 
+]
+
+/-- sink.lastVal -/
+def g126 : List Access := [
+  A 15 126 false false [] true [],  -- spotMgr.detectSignals spotlight.go:249 
+  A 15 126 true false [] true [],  -- spotMgr.detectSignals spotlight.go:250 
+  A 11 126 false false [] true [(14, .mid), (15, .pre), (16, .pre)],  -- spotMgr.detectSignals spotlight.go:249 
+  A 11 126 true false [] true [(14, .mid), (15, .pre), (16, .pre)]  -- spotMgr.detectSignals spotlight.go:250 
 ]
 
 /-- subreader.lineno -/
-def g126 : List Access := [
-  A 0 126 false false [] false [(1, .pre), (2, .pre), (3, .pre), (4, .pre)],  -- pos.wrapErr reader.go:175 
-  A 0 126 true false [] false [(1, .pre), (2, .pre), (3, .pre), (4, .pre)]  -- subreader.readLine reader.go:205 
+def g127 : List Access := [
+  A 0 127 false false [] false [(1, .pre), (2, .pre), (3, .pre), (4, .pre)],  -- pos.wrapErr reader.go:175 
+  A 0 127 true false [] false [(1, .pre), (2, .pre), (3, .pre), (4, .pre)]  -- subreader.readLine reader.go:205 
 ]
 
 /-- subreader.lines -/
-def g127 : List Access := [
-  A 0 127 false false [] false [(1, .pre), (2, .pre), (3, .pre), (4, .pre)],  -- pos.wrapErr reader.go:150 
-  A 0 127 true false [] false [(1, .pre), (2, .pre), (3, .pre), (4, .pre)]  -- subreader.readLine reader.go:201 
-]
-
-/-- subreader.lines[] -/
 def g128 : List Access := [
-  A 0 128 false false [] false [(1, .pre), (2, .pre), (3, .pre), (4, .pre)],  -- pos.wrapErr reader.go:154 
+  A 0 128 false false [] false [(1, .pre), (2, .pre), (3, .pre), (4, .pre)],  -- pos.wrapErr reader.go:150 
   A 0 128 true false [] false [(1, .pre), (2, .pre), (3, .pre), (4, .pre)]  -- subreader.readLine reader.go:201 
 ]
 
-/-- subreader.parent -/
+/-- subreader.lines[] -/
 def g129 : List Access := [
-  A 0 129 false false [] false [(1, .pre), (2, .pre), (3, .pre), (4, .pre)],  -- pos.wrapErr reader.go:170 
-  A 0 129 true false [] false [(1, .pre), (2, .pre), (3, .pre), (4, .pre)]  -- subreader.readLine reader.go:258 
+  A 0 129 false false [] false [(1, .pre), (2, .pre), (3, .pre), (4, .pre)],  -- pos.wrapErr reader.go:154 
+  A 0 129 true false [] false [(1, .pre), (2, .pre), (3, .pre), (4, .pre)]  -- subreader.readLine reader.go:201 
+]
+
+/-- subreader.parent -/
+def g130 : List Access := [
+  A 0 130 false false [] false [(1, .pre), (2, .pre), (3, .pre), (4, .pre)],  -- pos.wrapErr reader.go:170 
+  A 0 130 true false [] false [(1, .pre), (2, .pre), (3, .pre), (4, .pre)]  -- subreader.readLine reader.go:261 
 ]
 
 /-- timeutil.Timer.Read -/
-def g130 : List Access := [
-  A 7 130 true false [] true []  -- collector.collect collector.go:177 
+def g131 : List Access := [
+  A 7 131 true false [] true []  -- collector.collect collector.go:177 
 ]
 
 /-- var actionDefRe -/
-def g131 : List Access := [
-  A 0 131 false false [] false [(1, .pre), (2, .pre), (3, .pre), (4, .pre)],  -- config.parseRole$1 parsecfg.go:589 
-  A 0 131 true false [] false [(1, .pre), (2, .pre), (3, .pre), (4, .pre)]  -- init parsecfg.go:555 
+def g132 : List Access := [
+  A 0 132 false false [] false [(1, .pre), (2, .pre), (3, .pre), (4, .pre)],  -- config.parseRole$1 parsecfg.go:589 
+  A 0 132 true false [] false [(1, .pre), (2, .pre), (3, .pre), (4, .pre)]  -- init parsecfg.go:555 
 ]
 
 /-- var activeRe -/
-def g132 : List Access := [
-  A 0 132 true false [] false [(1, .pre), (2, .pre), (3, .pre), (4, .pre)]  -- init parsecfg.go:236 
+def g133 : List Access := [
+  A 0 133 true false [] false [(1, .pre), (2, .pre), (3, .pre), (4, .pre)]  -- init parsecfg.go:236 
 ]
 
 /-- var actorDefRe -/
-def g133 : List Access := [
-  A 0 133 true false [] false [(1, .pre), (2, .pre), (3, .pre), (4, .pre)]  -- init parsecfg.go:713 
+def g134 : List Access := [
+  A 0 134 true false [] false [(1, .pre), (2, .pre), (3, .pre), (4, .pre)]  -- init parsecfg.go:713 
 ]
 
 /-- var actorsRe -/
-def g134 : List Access := [
-  A 0 134 false false [] false [(1, .pre), (2, .pre), (3, .pre), (4, .pre)],  -- config.parseCfg parsecfg.go:25 
-  A 0 134 true false [] false [(1, .pre), (2, .pre), (3, .pre), (4, .pre)]  -- init parsecfg.go:712 
+def g135 : List Access := [
+  A 0 135 false false [] false [(1, .pre), (2, .pre), (3, .pre), (4, .pre)],  -- config.parseCfg parsecfg.go:25 
+  A 0 135 true false [] false [(1, .pre), (2, .pre), (3, .pre), (4, .pre)]  -- init parsecfg.go:712 
 ]
 
 /-- var adjList -/
-def g135 : List Access := [
-  A 0 135 false false [] false [(1, .post), (2, .mid), (3, .mid), (4, .mid)],  -- GenName namegen.go:12 
-  A 0 135 true false [] false [(1, .pre), (2, .pre), (3, .pre), (4, .pre)]  -- init words.go:1120 
+def g136 : List Access := [
+  A 0 136 false false [] false [(1, .post), (2, .mid), (3, .mid), (4, .mid)],  -- GenName namegen.go:12 
+  A 0 136 true false [] false [(1, .pre), (2, .pre), (3, .pre), (4, .pre)]  -- init words.go:1120 
 ]
 
 /-- var advList -/
-def g136 : List Access := [
-  A 0 136 false false [] false [(1, .post), (2, .mid), (3, .mid), (4, .mid)],  -- GenName namegen.go:13 
-  A 0 136 true false [] false [(1, .pre), (2, .pre), (3, .pre), (4, .pre)]  -- init words.go:3 
+def g137 : List Access := [
+  A 0 137 false false [] false [(1, .post), (2, .mid), (3, .mid), (4, .mid)],  -- GenName namegen.go:13 
+  A 0 137 true false [] false [(1, .pre), (2, .pre), (3, .pre), (4, .pre)]  -- init words.go:3 
 ]
 
 /-- var audienceRe -/
-def g137 : List Access := [
-  A 0 137 false false [] false [(1, .pre), (2, .pre), (3, .pre), (4, .pre)],  -- config.parseCfg parsecfg.go:27 
-  A 0 137 true false [] false [(1, .pre), (2, .pre), (3, .pre), (4, .pre)]  -- init parsecfg.go:232 
+def g138 : List Access := [
+  A 0 138 false false [] false [(1, .pre), (2, .pre), (3, .pre), (4, .pre)],  -- config.parseCfg parsecfg.go:27 
+  A 0 138 true false [] false [(1, .pre), (2, .pre), (3, .pre), (4, .pre)]  -- init parsecfg.go:232 
 ]
 
 /-- var automata -/
-def g138 : List Access := [
-  A 0 138 true false [] false [(1, .pre), (2, .pre), (3, .pre), (4, .pre)]  -- init pred_fsm.go:48 
+def g139 : List Access := [
+  A 0 139 true false [] false [(1, .pre), (2, .pre), (3, .pre), (4, .pre)]  -- init pred_fsm.go:48 
 ]
 
 /-- var cleanupDefRe -/
-def g139 : List Access := [
-  A 0 139 false false [] false [(1, .pre), (2, .pre), (3, .pre), (4, .pre)],  -- config.parseRole$1 parsecfg.go:603 
-  A 0 139 true false [] false [(1, .pre), (2, .pre), (3, .pre), (4, .pre)]  -- init parsecfg.go:557 
+def g140 : List Access := [
+  A 0 140 false false [] false [(1, .pre), (2, .pre), (3, .pre), (4, .pre)],  -- config.parseRole$1 parsecfg.go:603 
+  A 0 140 true false [] false [(1, .pre), (2, .pre), (3, .pre), (4, .pre)]  -- init parsecfg.go:557 
 ]
 
 /-- var collectFns -/
-def g140 : List Access := [
-  A 8 140 false false [] true [],  -- audition.processAssignments audit.go:514 
-  A 0 140 true false [] false [(1, .pre), (2, .pre), (3, .pre), (4, .pre)]  -- init functions.go:270 
+def g141 : List Access := [
+  A 8 141 false false [] true [],  -- audition.processAssignments audit.go:514 
+  A 0 141 true false [] false [(1, .pre), (2, .pre), (3, .pre), (4, .pre)]  -- init functions.go:270 
 ]
 
 /-- var collectsRe -/
-def g141 : List Access := [
-  A 0 141 true false [] false [(1, .pre), (2, .pre), (3, .pre), (4, .pre)]  -- init parsecfg.go:237 
+def g142 : List Access := [
+  A 0 142 true false [] false [(1, .pre), (2, .pre), (3, .pre), (4, .pre)]  -- init parsecfg.go:237 
 ]
 
 /-- var computesRe -/
-def g142 : List Access := [
-  A 0 142 true false [] false [(1, .pre), (2, .pre), (3, .pre), (4, .pre)]  -- init parsecfg.go:238 
+def g143 : List Access := [
+  A 0 143 true false [] false [(1, .pre), (2, .pre), (3, .pre), (4, .pre)]  -- init parsecfg.go:238 
 ]
 
 /-- var editRe -/
-def g143 : List Access := [
-  A 0 143 true false [] false [(1, .pre), (2, .pre), (3, .pre), (4, .pre)]  -- init parsecfg.go:823 
+def g144 : List Access := [
+  A 0 144 true false [] false [(1, .pre), (2, .pre), (3, .pre), (4, .pre)]  -- init parsecfg.go:823 
 ]
 
 /-- var entailsRe -/
-def g144 : List Access := [
-  A 0 144 true false [] false [(1, .pre), (2, .pre), (3, .pre), (4, .pre)]  -- init parsecfg.go:820 
+def g145 : List Access := [
+  A 0 145 true false [] false [(1, .pre), (2, .pre), (3, .pre), (4, .pre)]  -- init parsecfg.go:820 
 ]
 
 /-- var errAuditViolation -/
-def g145 : List Access := [
-  A 1 145 false false [] true [(5, .post), (6, .post), (7, .post), (8, .post)],  -- app.conduct$3 conductor.go:49 
-  A 7 145 false false [] true [],  -- collector.checkAuditViolations collector.go:260 
-  A 0 145 true false [] false [(1, .pre), (2, .pre), (3, .pre), (4, .pre)]  -- init collector.go:213 
+def g146 : List Access := [
+  A 1 146 false false [] true [(5, .post), (6, .post), (7, .post), (8, .post)],  -- app.conduct$3 conductor.go:49 
+  A 7 146 false false [] true [],  -- collector.checkAuditViolations collector.go:260 
+  A 0 146 true false [] false [(1, .pre), (2, .pre), (3, .pre), (4, .pre)]  -- init collector.go:213 
 ]
 
 /-- var errInterrupted -/
-def g146 : List Access := [
-  A 0 146 false false [] false [(1, .mid), (2, .pre), (3, .mid), (4, .mid)],  -- app.runConduct run.go:318 
-  A 0 146 false false [] false [(1, .post), (2, .mid), (3, .mid), (4, .mid)],  -- config.run$3 run.go:178 
-  A 0 146 true false [] false [(1, .pre), (2, .pre), (3, .pre), (4, .pre)]  -- init run.go:392 
+def g147 : List Access := [
+  A 0 147 false false [] false [(1, .mid), (2, .pre), (3, .mid), (4, .mid)],  -- app.runConduct run.go:322 
+  A 0 147 false false [] false [(1, .post), (2, .mid), (3, .mid), (4, .mid)],  -- config.run$3 run.go:182 
+  A 0 147 true false [] false [(1, .pre), (2, .pre), (3, .pre), (4, .pre)]  -- init run.go:401 
 ]
 
 /-- var evalFunctions -/
-def g147 : List Access := [
-  A 0 147 true false [] false [(1, .pre), (2, .pre), (3, .pre), (4, .pre)],  -- init functions.go:30 
-  A 0 147 false false [] false [(1, .pre), (2, .pre), (3, .pre), (4, .pre)]  -- init#1 functions.go:263 
+def g148 : List Access := [
+  A 0 148 true false [] false [(1, .pre), (2, .pre), (3, .pre), (4, .pre)],  -- init functions.go:30 
+  A 0 148 false false [] false [(1, .pre), (2, .pre), (3, .pre), (4, .pre)]  -- init#1 functions.go:263 
 ]
 
 /-- var evalFunctions[] -/
-def g148 : List Access := [
-  A 0 148 false false [] false [(1, .pre), (2, .pre), (3, .pre), (4, .pre)],  -- init#1 functions.go:263 
-  A 0 148 true false [] false [(1, .pre), (2, .pre), (3, .pre), (4, .pre)]  -- init#1 functions.go:263 
+def g149 : List Access := [
+  A 0 149 false false [] false [(1, .pre), (2, .pre), (3, .pre), (4, .pre)],  -- init#1 functions.go:263 
+  A 0 149 true false [] false [(1, .pre), (2, .pre), (3, .pre), (4, .pre)]  -- init#1 functions.go:263 
 ]
 
 /-- var expectsRe -/
-def g149 : List Access := [
-  A 0 149 true false [] false [(1, .pre), (2, .pre), (3, .pre), (4, .pre)]  -- init parsecfg.go:239 
+def g150 : List Access := [
+  A 0 150 true false [] false [(1, .pre), (2, .pre), (3, .pre), (4, .pre)]  -- init parsecfg.go:239 
 ]
 
 /-- var expectsSameRe -/
-def g150 : List Access := [
-  A 0 150 true false [] false [(1, .pre), (2, .pre), (3, .pre), (4, .pre)]  -- init parsecfg.go:240 
+def g151 : List Access := [
+  A 0 151 true false [] false [(1, .pre), (2, .pre), (3, .pre), (4, .pre)]  -- init parsecfg.go:240 
 ]
 
 /-- var foulRe -/
-def g151 : List Access := [
-  A 0 151 true false [] false [(1, .pre), (2, .pre), (3, .pre), (4, .pre)]  -- init parsecfg.go:169 
+def g152 : List Access := [
+  A 0 152 true false [] false [(1, .pre), (2, .pre), (3, .pre), (4, .pre)]  -- init parsecfg.go:169 
 ]
 
 /-- var identRe -/
-def g152 : List Access := [
-  A 0 152 false false [] false [(1, .pre), (2, .pre), (3, .pre), (4, .pre)],  -- checkIdent parsecfg.go:1072 
-  A 0 152 true false [] false [(1, .pre), (2, .pre), (3, .pre), (4, .pre)]  -- init parsecfg.go:1084 
+def g153 : List Access := [
+  A 0 153 false false [] false [(1, .pre), (2, .pre), (3, .pre), (4, .pre)],  -- checkIdent parsecfg.go:1072 
+  A 0 153 true false [] false [(1, .pre), (2, .pre), (3, .pre), (4, .pre)]  -- init parsecfg.go:1084 
 ]
 
 /-- var ignoreRe -/
-def g153 : List Access := [
-  A 0 153 true false [] false [(1, .pre), (2, .pre), (3, .pre), (4, .pre)]  -- init parsecfg.go:168 
+def g154 : List Access := [
+  A 0 154 true false [] false [(1, .pre), (2, .pre), (3, .pre), (4, .pre)]  -- init parsecfg.go:168 
 ]
 
 /-- var init$guard -/
-def g154 : List Access := [
-  A 0 154 false false [] false [(1, .pre), (2, .pre), (3, .pre), (4, .pre)],  -- init ? 
-  A 0 154 true false [] false [(1, .pre), (2, .pre), (3, .pre), (4, .pre)]  -- init ? 
+def g155 : List Access := [
+  A 0 155 false false [] false [(1, .pre), (2, .pre), (3, .pre), (4, .pre)],  -- init ? 
+  A 0 155 true false [] false [(1, .pre), (2, .pre), (3, .pre), (4, .pre)]  -- init ? 
 ]
 
 /-- var interpretationRe -/
-def g155 : List Access := [
-  A 0 155 false false [] false [(1, .pre), (2, .pre), (3, .pre), (4, .pre)],  -- config.parseCfg parsecfg.go:28 
-  A 0 155 true false [] false [(1, .pre), (2, .pre), (3, .pre), (4, .pre)]  -- init parsecfg.go:167 
+def g156 : List Access := [
+  A 0 156 false false [] false [(1, .pre), (2, .pre), (3, .pre), (4, .pre)],  -- config.parseCfg parsecfg.go:28 
+  A 0 156 true false [] false [(1, .pre), (2, .pre), (3, .pre), (4, .pre)]  -- init parsecfg.go:167 
 ]
 
 /-- var measuresRe -/
-def g156 : List Access := [
-  A 0 156 true false [] false [(1, .pre), (2, .pre), (3, .pre), (4, .pre)]  -- init parsecfg.go:235 
+def g157 : List Access := [
+  A 0 157 true false [] false [(1, .pre), (2, .pre), (3, .pre), (4, .pre)]  -- init parsecfg.go:235 
 ]
 
 /-- var moodChangeRe -/
-def g157 : List Access := [
-  A 0 157 true false [] false [(1, .pre), (2, .pre), (3, .pre), (4, .pre)]  -- init parsecfg.go:821 
+def g158 : List Access := [
+  A 0 158 true false [] false [(1, .pre), (2, .pre), (3, .pre), (4, .pre)]  -- init parsecfg.go:821 
 ]
 
 /-- var narratorCtx -/
-def g158 : List Access := [
-  A 7 158 false false [] true [],  -- app.narrate app.go:146 
-  A 0 158 false false [] false [(1, .mid), (2, .mid), (3, .mid), (4, .mid)],  -- app.narrate app.go:146 
-  A 0 158 true false [] false [(1, .pre), (2, .pre), (3, .pre), (4, .pre)],  -- init app.go:143 
-  A 10 158 false false [] true [(13, .mid), (14, .mid)],  -- app.narrate app.go:146 
-  A 5 158 false false [] true [(10, .mid)],  -- app.narrate app.go:146 
-  A 11 158 false false [] true [(14, .mid), (15, .post), (16, .mid)]  -- app.narrate app.go:146 
+def g159 : List Access := [
+  A 7 159 false false [] true [],  -- app.narrate app.go:146 
+  A 0 159 false false [] false [(1, .mid), (2, .mid), (3, .mid), (4, .mid)],  -- app.narrate app.go:146 
+  A 0 159 true false [] false [(1, .pre), (2, .pre), (3, .pre), (4, .pre)],  -- init app.go:143 
+  A 10 159 false false [] true [(13, .mid), (14, .mid)],  -- app.narrate app.go:146 
+  A 5 159 false false [] true [(10, .mid)],  -- app.narrate app.go:146 
+  A 11 159 false false [] true [(14, .mid), (15, .post), (16, .mid)]  -- app.narrate app.go:146 
 ]
 
 /-- var noPlotRe -/
-def g159 : List Access := [
-  A 0 159 true false [] false [(1, .pre), (2, .pre), (3, .pre), (4, .pre)]  -- init parsecfg.go:241 
+def g160 : List Access := [
+  A 0 160 true false [] false [(1, .pre), (2, .pre), (3, .pre), (4, .pre)]  -- init parsecfg.go:241 
 ]
 
 /-- var nounsList -/
-def g160 : List Access := [
-  A 0 160 false false [] false [(1, .post), (2, .mid), (3, .mid), (4, .mid)],  -- GenName namegen.go:11 
-  A 0 160 true false [] false [(1, .pre), (2, .pre), (3, .pre), (4, .pre)]  -- init words.go:119 
+def g161 : List Access := [
+  A 0 161 false false [] false [(1, .post), (2, .mid), (3, .mid), (4, .mid)],  -- GenName namegen.go:11 
+  A 0 161 true false [] false [(1, .pre), (2, .pre), (3, .pre), (4, .pre)]  -- init words.go:119 
 ]
 
 /-- var paramRe -/
-def g161 : List Access := [
-  A 0 161 false false [] false [(1, .pre), (2, .pre), (3, .pre), (4, .pre)],  -- config.parseCfg parsecfg.go:53 
-  A 0 161 true false [] false [(1, .pre), (2, .pre), (3, .pre), (4, .pre)]  -- init parsecfg.go:144 
+def g162 : List Access := [
+  A 0 162 false false [] false [(1, .pre), (2, .pre), (3, .pre), (4, .pre)],  -- config.parseCfg parsecfg.go:53 
+  A 0 162 true false [] false [(1, .pre), (2, .pre), (3, .pre), (4, .pre)]  -- init parsecfg.go:144 
 ]
 
 /-- var parseDefRe -/
-def g162 : List Access := [
-  A 0 162 false false [] false [(1, .pre), (2, .pre), (3, .pre), (4, .pre)],  -- config.parseRole$1 parsecfg.go:605 
-  A 0 162 true false [] false [(1, .pre), (2, .pre), (3, .pre), (4, .pre)]  -- init parsecfg.go:558 
+def g163 : List Access := [
+  A 0 163 false false [] false [(1, .pre), (2, .pre), (3, .pre), (4, .pre)],  -- config.parseRole$1 parsecfg.go:605 
+  A 0 163 true false [] false [(1, .pre), (2, .pre), (3, .pre), (4, .pre)]  -- init parsecfg.go:558 
 ]
 
 /-- var preprocRe -/
-def g163 : List Access := [
-  A 0 163 false false [] false [(1, .pre), (2, .pre), (3, .pre), (4, .pre)],  -- config.preprocReplace parsecfg.go:1144 
-  A 0 163 true false [] false [(1, .pre), (2, .pre), (3, .pre), (4, .pre)]  -- init parsecfg.go:1139 
+def g164 : List Access := [
+  A 0 164 false false [] false [(1, .pre), (2, .pre), (3, .pre), (4, .pre)],  -- config.preprocReplace parsecfg.go:1144 
+  A 0 164 true false [] false [(1, .pre), (2, .pre), (3, .pre), (4, .pre)]  -- init parsecfg.go:1139 
 ]
 
 /-- var registry -/
-def g164 : List Access := [
-  A 1 164 false false [] true [(5, .mid), (6, .mid), (7, .mid), (8, .mid), (9, .mid)],  -- runWorker workers.go:83 
-  A 1 164 false false [] false [],  -- runWorker$1 workers.go:89 
-  A 2 164 false false [] false [],  -- showRunning workers.go:68 
-  A 9 164 false false [] true [(12, .pre), (13, .pre), (14, .mid)],  -- runWorker workers.go:83 
-  A 9 164 false false [] false [(13, .mid), (14, .mid)],  -- runWorker$1 workers.go:89 
-  A 8 164 false false [] false [],  -- runWorker$1 workers.go:89 
-  A 7 164 false false [] false [],  -- runWorker$1 workers.go:89 
-  A 0 164 true false [] false [(1, .pre), (2, .pre), (3, .pre), (4, .pre)],  -- init workers.go:38 
-  A 0 164 false false [] false [(1, .mid), (2, .pre), (3, .pre), (4, .mid)],  -- runWorker workers.go:83 
-  A 0 164 false false [] false [(1, .mid), (2, .pre), (3, .mid), (4, .mid)],  -- showRunning workers.go:68 
-  A 10 164 false false [] true [(13, .mid), (14, .mid)],  -- runWorker workers.go:83 
-  A 5 164 false false [] false [],  -- runWorker$1 workers.go:89 
-  A 14 164 false false [] false [],  -- runWorker$1 workers.go:89 
-  A 11 164 false false [] true [(14, .mid), (15, .pre), (16, .pre)],  -- runWorker workers.go:83 
-  A 11 164 false false [] false [(14, .mid), (16, .mid)],  -- runWorker$1 workers.go:89 
-  A 6 164 false false [] true [(11, .mid)],  -- runWorker workers.go:83 
-  A 6 164 false false [] false []  -- runWorker$1 workers.go:89 
+def g165 : List Access := [
+  A 1 165 false false [] true [(5, .mid), (6, .mid), (7, .mid), (8, .mid), (9, .mid)],  -- runWorker workers.go:83 
+  A 1 165 false false [] false [],  -- runWorker$1 workers.go:89 
+  A 2 165 false false [] false [],  -- showRunning workers.go:68 
+  A 9 165 false false [] true [(12, .pre), (13, .pre), (14, .mid)],  -- runWorker workers.go:83 
+  A 9 165 false false [] false [(13, .mid), (14, .mid)],  -- runWorker$1 workers.go:89 
+  A 8 165 false false [] false [],  -- runWorker$1 workers.go:89 
+  A 7 165 false false [] false [],  -- runWorker$1 workers.go:89 
+  A 0 165 true false [] false [(1, .pre), (2, .pre), (3, .pre), (4, .pre)],  -- init workers.go:38 
+  A 0 165 false false [] false [(1, .mid), (2, .pre), (3, .pre), (4, .mid)],  -- runWorker workers.go:83 
+  A 0 165 false false [] false [(1, .mid), (2, .pre), (3, .mid), (4, .mid)],  -- showRunning workers.go:68 
+  A 10 165 false false [] true [(13, .mid), (14, .mid)],  -- runWorker workers.go:83 
+  A 5 165 false false [] false [],  -- runWorker$1 workers.go:89 
+  A 14 165 false false [] false [],  -- runWorker$1 workers.go:89 
+  A 11 165 false false [] true [(14, .mid), (15, .pre), (16, .pre)],  -- runWorker workers.go:83 
+  A 11 165 false false [] false [(14, .mid), (16, .mid)],  -- runWorker$1 workers.go:89 
+  A 6 165 false false [] true [(11, .mid)],  -- runWorker workers.go:83 
+  A 6 165 false false [] false []  -- runWorker$1 workers.go:89 
 ]
 
 /-- var repeatAlwaysRe -/
-def g165 : List Access := [
-  A 0 165 true false [] false [(1, .pre), (2, .pre), (3, .pre), (4, .pre)]  -- init parsecfg.go:816 
+def g166 : List Access := [
+  A 0 166 true false [] false [(1, .pre), (2, .pre), (3, .pre), (4, .pre)]  -- init parsecfg.go:816 
 ]
 
 /-- var repeatCountRe -/
-def g166 : List Access := [
-  A 0 166 true false [] false [(1, .pre), (2, .pre), (3, .pre), (4, .pre)]  -- init parsecfg.go:815 
+def g167 : List Access := [
+  A 0 167 true false [] false [(1, .pre), (2, .pre), (3, .pre), (4, .pre)]  -- init parsecfg.go:815 
 ]
 
 /-- var repeatRe -/
-def g167 : List Access := [
-  A 0 167 true false [] false [(1, .pre), (2, .pre), (3, .pre), (4, .pre)]  -- init parsecfg.go:824 
+def g168 : List Access := [
+  A 0 168 true false [] false [(1, .pre), (2, .pre), (3, .pre), (4, .pre)]  -- init parsecfg.go:824 
 ]
 
 /-- var repeatTimeoutRe -/
-def g168 : List Access := [
-  A 0 168 true false [] false [(1, .pre), (2, .pre), (3, .pre), (4, .pre)]  -- init parsecfg.go:817 
+def g169 : List Access := [
+  A 0 169 true false [] false [(1, .pre), (2, .pre), (3, .pre), (4, .pre)]  -- init parsecfg.go:817 
 ]
 
 /-- var roleRe -/
-def g169 : List Access := [
-  A 0 169 false false [] false [(1, .pre), (2, .pre), (3, .pre), (4, .pre)],  -- config.parseCfg parsecfg.go:63 
-  A 0 169 true false [] false [(1, .pre), (2, .pre), (3, .pre), (4, .pre)]  -- init parsecfg.go:554 
+def g170 : List Access := [
+  A 0 170 false false [] false [(1, .pre), (2, .pre), (3, .pre), (4, .pre)],  -- config.parseCfg parsecfg.go:63 
+  A 0 170 true false [] false [(1, .pre), (2, .pre), (3, .pre), (4, .pre)]  -- init parsecfg.go:554 
 ]
 
 /-- var scriptRe -/
-def g170 : List Access := [
-  A 0 170 false false [] false [(1, .pre), (2, .pre), (3, .pre), (4, .pre)],  -- config.parseCfg parsecfg.go:26 
-  A 0 170 true false [] false [(1, .pre), (2, .pre), (3, .pre), (4, .pre)]  -- init parsecfg.go:813 
+def g171 : List Access := [
+  A 0 171 false false [] false [(1, .pre), (2, .pre), (3, .pre), (4, .pre)],  -- config.parseCfg parsecfg.go:26 
+  A 0 171 true false [] false [(1, .pre), (2, .pre), (3, .pre), (4, .pre)]  -- init parsecfg.go:813 
 ]
 
 /-- var spotlightDefRe -/
-def g171 : List Access := [
-  A 0 171 false false [] false [(1, .pre), (2, .pre), (3, .pre), (4, .pre)],  -- config.parseRole$1 parsecfg.go:601 
-  A 0 171 true false [] false [(1, .pre), (2, .pre), (3, .pre), (4, .pre)]  -- init parsecfg.go:556 
+def g172 : List Access := [
+  A 0 172 false false [] false [(1, .pre), (2, .pre), (3, .pre), (4, .pre)],  -- config.parseRole$1 parsecfg.go:601 
+  A 0 172 true false [] false [(1, .pre), (2, .pre), (3, .pre), (4, .pre)]  -- init parsecfg.go:556 
 ]
 
 /-- var storyLineRe -/
-def g172 : List Access := [
-  A 0 172 true false [] false [(1, .pre), (2, .pre), (3, .pre), (4, .pre)]  -- init parsecfg.go:822 
+def g173 : List Access := [
+  A 0 173 true false [] false [(1, .pre), (2, .pre), (3, .pre), (4, .pre)]  -- init parsecfg.go:822 
 ]
 
 /-- var tempoRe -/
-def g173 : List Access := [
-  A 0 173 true false [] false [(1, .pre), (2, .pre), (3, .pre), (4, .pre)]  -- init parsecfg.go:814 
+def g174 : List Access := [
+  A 0 174 true false [] false [(1, .pre), (2, .pre), (3, .pre), (4, .pre)]  -- init parsecfg.go:814 
 ]
 
 /-- var watchRe -/
-def g174 : List Access := [
-  A 0 174 true false [] false [(1, .pre), (2, .pre), (3, .pre), (4, .pre)]  -- init parsecfg.go:233 
+def g175 : List Access := [
+  A 0 175 true false [] false [(1, .pre), (2, .pre), (3, .pre), (4, .pre)]  -- init parsecfg.go:233 
 ]
 
 /-- var watchVarRe -/
-def g175 : List Access := [
-  A 0 175 true false [] false [(1, .pre), (2, .pre), (3, .pre), (4, .pre)]  -- init parsecfg.go:234 
+def g176 : List Access := [
+  A 0 176 true false [] false [(1, .pre), (2, .pre), (3, .pre), (4, .pre)]  -- init parsecfg.go:234 
 ]
 
 /-- variable.watcherNames -/
-def g176 : List Access := [
-  A 7 176 false false [] true [],  -- collector.collectObservation collector.go:302 
-  A 0 176 false false [] false [(2, .mid), (3, .mid), (4, .mid)],  -- config.printCfg config.go:462 
-  A 0 176 false false [] false [(1, .pre), (2, .pre), (3, .pre), (4, .pre)],  -- variable.maybeAddWatcher config.go:1067 
-  A 0 176 true false [] false [(1, .pre), (2, .pre), (3, .pre), (4, .pre)]  -- variable.maybeAddWatcher config.go:1067 
-]
-
-/-- variable.watcherNames[] -/
 def g177 : List Access := [
-  A 7 177 false false [] true [],  -- collector.collectObservation ? 
-  A 0 177 false false [] false [(2, .mid), (3, .mid), (4, .mid)],  -- config.printCfg ? 
+  A 7 177 false false [] true [],  -- collector.collectObservation collector.go:302 
+  A 0 177 false false [] false [(2, .mid), (3, .mid), (4, .mid)],  -- config.printCfg config.go:462 
+  A 0 177 false false [] false [(1, .pre), (2, .pre), (3, .pre), (4, .pre)],  -- variable.maybeAddWatcher config.go:1067 
   A 0 177 true false [] false [(1, .pre), (2, .pre), (3, .pre), (4, .pre)]  -- variable.maybeAddWatcher config.go:1067 
 ]
 
-/-- variable.watchers[] -/
+/-- variable.watcherNames[] -/
 def g178 : List Access := [
-  A 8 178 false false [] true [],  -- audition.setAndActivateVar audit.go:650 
-  A 7 178 false false [] true [],  -- collector.collectObservation collector.go:303 
-  A 0 178 false false [] false [(1, .pre), (2, .pre), (3, .pre), (4, .pre)],  -- variable.maybeAddWatcher config.go:1063 
-  A 0 178 true false [] false [(1, .pre), (2, .pre), (3, .pre), (4, .pre)]  -- variable.maybeAddWatcher config.go:1066 
+  A 7 178 false false [] true [],  -- collector.collectObservation ? 
+  A 0 178 false false [] false [(2, .mid), (3, .mid), (4, .mid)],  -- config.printCfg ? 
+  A 0 178 true false [] false [(1, .pre), (2, .pre), (3, .pre), (4, .pre)]  -- variable.maybeAddWatcher config.go:1067 
+]
+
+/-- variable.watchers[] -/
+def g179 : List Access := [
+  A 8 179 false false [] true [],  -- audition.setAndActivateVar audit.go:650 
+  A 7 179 false false [] true [],  -- collector.collectObservation collector.go:303 
+  A 0 179 false false [] false [(1, .pre), (2, .pre), (3, .pre), (4, .pre)],  -- variable.maybeAddWatcher config.go:1063 
+  A 0 179 true false [] false [(1, .pre), (2, .pre), (3, .pre), (4, .pre)]  -- variable.maybeAddWatcher config.go:1066 
 ]
 
 /-- workerRegistry.mu.numWorkers -/
-def g179 : List Access := [
-  A 1 179 false false [0] true [(5, .mid), (6, .mid), (7, .mid), (8, .mid), (9, .mid)],  -- workerRegistry.addWorker workers.go:28 
-  A 1 179 true false [0] true [(5, .mid), (6, .mid), (7, .mid), (8, .mid), (9, .mid)],  -- workerRegistry.addWorker workers.go:28 
-  A 1 179 false false [0] false [],  -- workerRegistry.delWorker workers.go:35 
-  A 1 179 true false [0] false [],  -- workerRegistry.delWorker workers.go:35 
-  A 2 179 false false [0] false [],  -- workerRegistry.String workers.go:48 
-  A 9 179 false false [0] true [(12, .pre), (13, .pre), (14, .mid)],  -- workerRegistry.addWorker workers.go:28 
-  A 9 179 true false [0] true [(12, .pre), (13, .pre), (14, .mid)],  -- workerRegistry.addWorker workers.go:28 
-  A 9 179 false false [0] false [(13, .mid), (14, .mid)],  -- workerRegistry.delWorker workers.go:35 
-  A 9 179 true false [0] false [(13, .mid), (14, .mid)],  -- workerRegistry.delWorker workers.go:35 
-  A 8 179 false false [0] false [],  -- workerRegistry.delWorker workers.go:35 
-  A 8 179 true false [0] false [],  -- workerRegistry.delWorker workers.go:35 
-  A 7 179 false false [0] false [],  -- workerRegistry.delWorker workers.go:35 
-  A 7 179 true false [0] false [],  -- workerRegistry.delWorker workers.go:35 
-  A 0 179 false false [0] false [(1, .mid), (2, .pre), (3, .mid), (4, .mid)],  -- workerRegistry.String workers.go:48 
-  A 0 179 false false [0] false [(1, .mid), (2, .pre), (3, .pre), (4, .mid)],  -- workerRegistry.addWorker workers.go:28 
-  A 0 179 true false [0] false [(1, .mid), (2, .pre), (3, .pre), (4, .mid)],  -- workerRegistry.addWorker workers.go:28 
-  A 10 179 false false [0] true [(13, .mid), (14, .mid)],  -- workerRegistry.addWorker workers.go:28 
-  A 10 179 true false [0] true [(13, .mid), (14, .mid)],  -- workerRegistry.addWorker workers.go:28 
-  A 5 179 false false [0] false [],  -- workerRegistry.delWorker workers.go:35 
-  A 5 179 true false [0] false [],  -- workerRegistry.delWorker workers.go:35 
-  A 14 179 false false [0] false [],  -- workerRegistry.delWorker workers.go:35 
-  A 14 179 true false [0] false [],  -- workerRegistry.delWorker workers.go:35 
-  A 11 179 false false [0] true [(14, .mid), (15, .pre), (16, .pre)],  -- workerRegistry.addWorker workers.go:28 
-  A 11 179 true false [0] true [(14, .mid), (15, .pre), (16, .pre)],  -- workerRegistry.addWorker workers.go:28 
-  A 11 179 false false [0] false [(14, .mid), (16, .mid)],  -- workerRegistry.delWorker workers.go:35 
-  A 11 179 true false [0] false [(14, .mid), (16, .mid)],  -- workerRegistry.delWorker workers.go:35 
-  A 6 179 false false [0] true [(11, .mid)],  -- workerRegistry.addWorker workers.go:28 
-  A 6 179 true false [0] true [(11, .mid)],  -- workerRegistry.addWorker workers.go:28 
-  A 6 179 false false [0] false [],  -- workerRegistry.delWorker workers.go:35 
-  A 6 179 true false [0] false []  -- workerRegistry.delWorker workers.go:35 
+def g180 : List Access := [
+  A 1 180 false false [0] true [(5, .mid), (6, .mid), (7, .mid), (8, .mid), (9, .mid)],  -- workerRegistry.addWorker workers.go:28 
+  A 1 180 true false [0] true [(5, .mid), (6, .mid), (7, .mid), (8, .mid), (9, .mid)],  -- workerRegistry.addWorker workers.go:28 
+  A 1 180 false false [0] false [],  -- workerRegistry.delWorker workers.go:35 
+  A 1 180 true false [0] false [],  -- workerRegistry.delWorker workers.go:35 
+  A 2 180 false false [0] false [],  -- workerRegistry.String workers.go:48 
+  A 9 180 false false [0] true [(12, .pre), (13, .pre), (14, .mid)],  -- workerRegistry.addWorker workers.go:28 
+  A 9 180 true false [0] true [(12, .pre), (13, .pre), (14, .mid)],  -- workerRegistry.addWorker workers.go:28 
+  A 9 180 false false [0] false [(13, .mid), (14, .mid)],  -- workerRegistry.delWorker workers.go:35 
+  A 9 180 true false [0] false [(13, .mid), (14, .mid)],  -- workerRegistry.delWorker workers.go:35 
+  A 8 180 false false [0] false [],  -- workerRegistry.delWorker workers.go:35 
+  A 8 180 true false [0] false [],  -- workerRegistry.delWorker workers.go:35 
+  A 7 180 false false [0] false [],  -- workerRegistry.delWorker workers.go:35 
+  A 7 180 true false [0] false [],  -- workerRegistry.delWorker workers.go:35 
+  A 0 180 false false [0] false [(1, .mid), (2, .pre), (3, .mid), (4, .mid)],  -- workerRegistry.String workers.go:48 
+  A 0 180 false false [0] false [(1, .mid), (2, .pre), (3, .pre), (4, .mid)],  -- workerRegistry.addWorker workers.go:28 
+  A 0 180 true false [0] false [(1, .mid), (2, .pre), (3, .pre), (4, .mid)],  -- workerRegistry.addWorker workers.go:28 
+  A 10 180 false false [0] true [(13, .mid), (14, .mid)],  -- workerRegistry.addWorker workers.go:28 
+  A 10 180 true false [0] true [(13, .mid), (14, .mid)],  -- workerRegistry.addWorker workers.go:28 
+  A 5 180 false false [0] false [],  -- workerRegistry.delWorker workers.go:35 
+  A 5 180 true false [0] false [],  -- workerRegistry.delWorker workers.go:35 
+  A 14 180 false false [0] false [],  -- workerRegistry.delWorker workers.go:35 
+  A 14 180 true false [0] false [],  -- workerRegistry.delWorker workers.go:35 
+  A 11 180 false false [0] true [(14, .mid), (15, .pre), (16, .pre)],  -- workerRegistry.addWorker workers.go:28 
+  A 11 180 true false [0] true [(14, .mid), (15, .pre), (16, .pre)],  -- workerRegistry.addWorker workers.go:28 
+  A 11 180 false false [0] false [(14, .mid), (16, .mid)],  -- workerRegistry.delWorker workers.go:35 
+  A 11 180 true false [0] false [(14, .mid), (16, .mid)],  -- workerRegistry.delWorker workers.go:35 
+  A 6 180 false false [0] true [(11, .mid)],  -- workerRegistry.addWorker workers.go:28 
+  A 6 180 true false [0] true [(11, .mid)],  -- workerRegistry.addWorker workers.go:28 
+  A 6 180 false false [0] false [],  -- workerRegistry.delWorker workers.go:35 
+  A 6 180 true false [0] false []  -- workerRegistry.delWorker workers.go:35 
 ]
 
 /-- workerRegistry.mu.workers[] -/
-def g180 : List Access := [
-  A 1 180 false false [0] true [(5, .mid), (6, .mid), (7, .mid), (8, .mid), (9, .mid)],  -- workerRegistry.addWorker workers.go:27 
-  A 1 180 true false [0] true [(5, .mid), (6, .mid), (7, .mid), (8, .mid), (9, .mid)],  -- workerRegistry.addWorker workers.go:27 
-  A 1 180 false false [0] false [],  -- workerRegistry.delWorker workers.go:34 
-  A 1 180 true false [0] false [],  -- workerRegistry.delWorker workers.go:34 
-  A 2 180 false false [0] false [],  -- workerRegistry.String workers.go:53 
-  A 9 180 false false [0] true [(12, .pre), (13, .pre), (14, .mid)],  -- workerRegistry.addWorker workers.go:27 
-  A 9 180 true false [0] true [(12, .pre), (13, .pre), (14, .mid)],  -- workerRegistry.addWorker workers.go:27 
-  A 9 180 false false [0] false [(13, .mid), (14, .mid)],  -- workerRegistry.delWorker workers.go:34 
-  A 9 180 true false [0] false [(13, .mid), (14, .mid)],  -- workerRegistry.delWorker workers.go:34 
-  A 8 180 false false [0] false [],  -- workerRegistry.delWorker workers.go:34 
-  A 8 180 true false [0] false [],  -- workerRegistry.delWorker workers.go:34 
-  A 7 180 false false [0] false [],  -- workerRegistry.delWorker workers.go:34 
-  A 7 180 true false [0] false [],  -- workerRegistry.delWorker workers.go:34 
-  A 0 180 false false [0] false [(1, .mid), (2, .pre), (3, .mid), (4, .mid)],  -- workerRegistry.String workers.go:53 
-  A 0 180 false false [0] false [(1, .mid), (2, .pre), (3, .pre), (4, .mid)],  -- workerRegistry.addWorker workers.go:27 
-  A 0 180 true false [0] false [(1, .mid), (2, .pre), (3, .pre), (4, .mid)],  -- workerRegistry.addWorker workers.go:27 
-  A 10 180 false false [0] true [(13, .mid), (14, .mid)],  -- workerRegistry.addWorker workers.go:27 
-  A 10 180 true false [0] true [(13, .mid), (14, .mid)],  -- workerRegistry.addWorker workers.go:27 
-  A 5 180 false false [0] false [],  -- workerRegistry.delWorker workers.go:34 
-  A 5 180 true false [0] false [],  -- workerRegistry.delWorker workers.go:34 
-  A 14 180 false false [0] false [],  -- workerRegistry.delWorker workers.go:34 
-  A 14 180 true false [0] false [],  -- workerRegistry.delWorker workers.go:34 
-  A 11 180 false false [0] true [(14, .mid), (15, .pre), (16, .pre)],  -- workerRegistry.addWorker workers.go:27 
-  A 11 180 true false [0] true [(14, .mid), (15, .pre), (16, .pre)],  -- workerRegistry.addWorker workers.go:27 
-  A 11 180 false false [0] false [(14, .mid), (16, .mid)],  -- workerRegistry.delWorker workers.go:34 
-  A 11 180 true false [0] false [(14, .mid), (16, .mid)],  -- workerRegistry.delWorker workers.go:34 
-  A 6 180 false false [0] true [(11, .mid)],  -- workerRegistry.addWorker workers.go:27 
-  A 6 180 true false [0] true [(11, .mid)],  -- workerRegistry.addWorker workers.go:27 
-  A 6 180 false false [0] false [],  -- workerRegistry.delWorker workers.go:34 
-  A 6 180 true false [0] false []  -- workerRegistry.delWorker workers.go:34 
+def g181 : List Access := [
+  A 1 181 false false [0] true [(5, .mid), (6, .mid), (7, .mid), (8, .mid), (9, .mid)],  -- workerRegistry.addWorker workers.go:27 
+  A 1 181 true false [0] true [(5, .mid), (6, .mid), (7, .mid), (8, .mid), (9, .mid)],  -- workerRegistry.addWorker workers.go:27 
+  A 1 181 false false [0] false [],  -- workerRegistry.delWorker workers.go:34 
+  A 1 181 true false [0] false [],  -- workerRegistry.delWorker workers.go:34 
+  A 2 181 false false [0] false [],  -- workerRegistry.String workers.go:53 
+  A 9 181 false false [0] true [(12, .pre), (13, .pre), (14, .mid)],  -- workerRegistry.addWorker workers.go:27 
+  A 9 181 true false [0] true [(12, .pre), (13, .pre), (14, .mid)],  -- workerRegistry.addWorker workers.go:27 
+  A 9 181 false false [0] false [(13, .mid), (14, .mid)],  -- workerRegistry.delWorker workers.go:34 
+  A 9 181 true false [0] false [(13, .mid), (14, .mid)],  -- workerRegistry.delWorker workers.go:34 
+  A 8 181 false false [0] false [],  -- workerRegistry.delWorker workers.go:34 
+  A 8 181 true false [0] false [],  -- workerRegistry.delWorker workers.go:34 
+  A 7 181 false false [0] false [],  -- workerRegistry.delWorker workers.go:34 
+  A 7 181 true false [0] false [],  -- workerRegistry.delWorker workers.go:34 
+  A 0 181 false false [0] false [(1, .mid), (2, .pre), (3, .mid), (4, .mid)],  -- workerRegistry.String workers.go:53 
+  A 0 181 false false [0] false [(1, .mid), (2, .pre), (3, .pre), (4, .mid)],  -- workerRegistry.addWorker workers.go:27 
+  A 0 181 true false [0] false [(1, .mid), (2, .pre), (3, .pre), (4, .mid)],  -- workerRegistry.addWorker workers.go:27 
+  A 10 181 false false [0] true [(13, .mid), (14, .mid)],  -- workerRegistry.addWorker workers.go:27 
+  A 10 181 true false [0] true [(13, .mid), (14, .mid)],  -- workerRegistry.addWorker workers.go:27 
+  A 5 181 false false [0] false [],  -- workerRegistry.delWorker workers.go:34 
+  A 5 181 true false [0] false [],  -- workerRegistry.delWorker workers.go:34 
+  A 14 181 false false [0] false [],  -- workerRegistry.delWorker workers.go:34 
+  A 14 181 true false [0] false [],  -- workerRegistry.delWorker workers.go:34 
+  A 11 181 false false [0] true [(14, .mid), (15, .pre), (16, .pre)],  -- workerRegistry.addWorker workers.go:27 
+  A 11 181 true false [0] true [(14, .mid), (15, .pre), (16, .pre)],  -- workerRegistry.addWorker workers.go:27 
+  A 11 181 false false [0] false [(14, .mid), (16, .mid)],  -- workerRegistry.delWorker workers.go:34 
+  A 11 181 true false [0] false [(14, .mid), (16, .mid)],  -- workerRegistry.delWorker workers.go:34 
+  A 6 181 false false [0] true [(11, .mid)],  -- workerRegistry.addWorker workers.go:27 
+  A 6 181 true false [0] true [(11, .mid)],  -- workerRegistry.addWorker workers.go:27 
+  A 6 181 false false [0] false [],  -- workerRegistry.delWorker workers.go:34 
+  A 6 181 true false [0] false []  -- workerRegistry.delWorker workers.go:34 
 ]
 
 def groups : List (List Access) := [
@@ -1988,7 +1995,7 @@ def groups : List (List Access) := [
   g128, g129, g130, g131, g132, g133, g134, g135, g136, g137, g138, g139, g140, g141, g142, g143, 
   g144, g145, g146, g147, g148, g149, g150, g151, g152, g153, g154, g155, g156, g157, g158, g159, 
   g160, g161, g162, g163, g164, g165, g166, g167, g168, g169, g170, g171, g172, g173, g174, g175, 
-  g176, g177, g178, g179, g180]
+  g176, g177, g178, g179, g180, g181]
 
 /-- locations written, in some function, after a pointer to the object was sent on a channel there -/
 def sentThenWritten : List Nat := []
